@@ -8,1679 +8,128 @@
   Quantifier: all sequences of add/get/evict/save/reload operations and all truncation and bit-flip positions.
 
   Models: SH/Model/Chunked.lean (chunked_storage2.go), SH/Model/MapCache.lean (pcache/mappings_cache.go).
-  xxh3 is the parameter `H` (any function with 16-byte results); "corruption is detected" is proved in reduction form.
--/
-import SH.Model.Chunked
-import SH.Model.MapCache
+  xxh3 is the parameter `H` (any function with 16-byte results).
 
-namespace SH.C21
+  The development lives in
+    SH/Lemmas/C21Base.lean    first round: chunk round trip / truncation / corruption, cache invariants per step, item codec,
+                              Save writes an encoding, save-then-restart theorems, Gen expectations, witnesses
+    SH/Lemmas/C21Closed.lean  tight reduction form for arbitrary damage, the ghost run and the CLOSED theorem
+    SH/Lemmas/C21Order.lean   exactness of the relational treatment of Go map order (RemoveByTTL, AddValues candidates)
+    SH/Lemmas/C21Writer.lean  the write side under injected WriteAt failures as a refinement over all op lists
+  (all four modules are audited by checks/C21.py).  This file states the headline theorems in one place.
+-/
+import SH.Lemmas.C21Base
+import SH.Lemmas.C21Closed
+import SH.Lemmas.C21Order
+import SH.Lemmas.C21Writer
+
+namespace SH.C21.Headline
 open SH.Chunked hiding St
 open SH.MapCache
+open SH.C21
 
-
-theorem le_length (k n : Nat) : (le k n).length = k := by
-  induction k generalizing n with
-  | zero => rfl
-  | succ k ih => simp [le, ih]
-
-theorem unle_le (k n : Nat) (h : n < 256 ^ k) : unle (le k n) = n := by
-  induction k generalizing n with
-  | zero => simp at h; subst h; rfl
-  | succ k ih =>
-    simp only [le, unle]
-    have h1 : n / 256 < 256 ^ k := by
-      rw [Nat.pow_succ] at h
-      exact Nat.div_lt_of_lt_mul (by rw [Nat.mul_comm]; exact h)
-    rw [ih _ h1]
-    have : (UInt8.ofNat (n % 256)).toNat = n % 256 := by
-      simp [UInt8.toNat_ofNat']
-    rw [this]; omega
-
-theorem header_length (m : Nat) (b : Bytes) : (header m b).length = 8 := by
-  simp [header, le_length]
-
-theorem encChunk_length (H : Bytes → Bytes) (m : Nat) (prev b : Bytes) (hH : ∀ x, (H x).length = 16) :
-    (encChunk H m prev b).length = 8 + b.length + 16 := by
-  simp [encChunk, header_length, hH]; omega
-
-
-/-- hypotheses on the parameters: the hash has 16 bytes, the magic is a uint32 -/
-structure Params (H : Bytes → Bytes) (magic : Nat) : Prop where
-  hlen : ∀ x, (H x).length = 16
-  magic32 : magic < 4294967296
-
-theorem chunkSize_val : chunkSize = 1048576 := rfl
-theorem headerSize_val : headerSize = 8 := rfl
-theorem hashSize_val : hashSize = 16 := rfl
-
-theorem readNext_encChunk {H : Bytes → Bytes} {magic : Nat} (P : Params H magic) (prev body rest : Bytes)
-    (hb : body.length ≤ chunkSize) :
-    readNext H magic prev (encChunk H magic prev body ++ rest)
-      = .chunk body (H (hashInput magic prev body)) rest := by
-  have hl := P.hlen (hashInput magic prev body)
-  have h4 : (le 4 magic).length = 4 := le_length _ _
-  have h4' : (le 4 body.length).length = 4 := le_length _ _
-  have hb32 : body.length < 256 ^ 4 := by rw [chunkSize_val] at hb; omega
-  have hm32 : magic < 256 ^ 4 := by have := P.magic32; omega
-  have e : encChunk H magic prev body ++ rest
-      = le 4 magic ++ (le 4 body.length ++ (body ++ (H (hashInput magic prev body) ++ rest))) := by
-    simp [encChunk, header, List.append_assoc]
-  have hmagic : magicOf (encChunk H magic prev body ++ rest) = magic := by
-    rw [e, magicOf, List.take_left' h4, unle_le _ _ hm32]
-  have hsize : bodySize (encChunk H magic prev body ++ rest) = body.length := by
-    rw [e, bodySize, List.drop_left' h4, List.take_left' h4', unle_le _ _ hb32]
-  have hlen : (encChunk H magic prev body ++ rest).length = 8 + body.length + 16 + rest.length := by
-    rw [e]; simp [h4, h4', hl]; omega
-  have hpart : hashedPart (encChunk H magic prev body ++ rest) = header magic body ++ body := by
-    rw [hashedPart, hsize, e]
-    have : (le 4 magic ++ (le 4 body.length ++ (body ++ (H (hashInput magic prev body) ++ rest))))
-        = (header magic body ++ body) ++ (H (hashInput magic prev body) ++ rest) := by
-      simp [header, List.append_assoc]
-    rw [this]
-    apply List.take_left'
-    simp [header_length, headerSize_val]
-  have hstored : storedHash (encChunk H magic prev body ++ rest) = H (hashInput magic prev body) := by
-    rw [storedHash, hsize, e]
-    have : (le 4 magic ++ (le 4 body.length ++ (body ++ (H (hashInput magic prev body) ++ rest))))
-        = (header magic body ++ body) ++ (H (hashInput magic prev body) ++ rest) := by
-      simp [header, List.append_assoc]
-    rw [this, List.drop_left' (by simp [header_length, headerSize_val])]
-    exact List.take_left' (by rw [hl, hashSize_val])
-  have hbody : ((encChunk H magic prev body ++ rest).drop headerSize).take body.length = body := by
-    rw [e]
-    have : (le 4 magic ++ (le 4 body.length ++ (body ++ (H (hashInput magic prev body) ++ rest))))
-        = header magic body ++ (body ++ (H (hashInput magic prev body) ++ rest)) := by
-      simp [header, List.append_assoc]
-    rw [this, List.drop_left' (by simp [header_length, headerSize_val])]
-    exact List.take_left' rfl
-  have hrest : (encChunk H magic prev body ++ rest).drop (headerSize + body.length + hashSize) = rest := by
-    apply List.drop_left'
-    rw [encChunk_length H magic prev body P.hlen, headerSize_val, hashSize_val]
-  unfold readNext
-  have hne : (encChunk H magic prev body ++ rest).isEmpty = false := by
-    cases h : (encChunk H magic prev body ++ rest) with
-    | nil => rw [h] at hlen; simp at hlen; omega
-    | cons a l => rfl
-  rw [hne]
-  simp only [shortHeader, wrongMagic, tooBig, bodyOverflows, hashMismatch, hmagic, hsize, hlen, hpart, hstored,
-    hbody, hrest, headerSize_val, hashSize_val, chunkSize_val]
-  have : ¬ (8 + body.length + 16 + rest.length < 8 + 16) := by omega
-  have h2 : ¬ (body.length > 1048576) := by rw [chunkSize_val] at hb; omega
-  have h3 : ¬ (8 + body.length + 16 > 8 + body.length + 16 + rest.length) := by omega
-  simp [this, h2, h3, hashInput]
-  rw [headerSize_val] at hbody; rw [headerSize_val, hashSize_val] at hrest
-  exact ⟨hbody, hrest⟩
-
-
-/-- hash of the last chunk of `bodies` when the chain starts at `prev` -/
-def chain (H : Bytes → Bytes) (magic : Nat) : Bytes → List Bytes → Bytes
-  | prev, [] => prev
-  | prev, b :: bs => chain H magic (H (hashInput magic prev b)) bs
-
-theorem readAll_nil (H : Bytes → Bytes) (magic : Nat) (prev : Bytes) : readAll H magic prev [] = ([], none) := by
-  rw [readAll]; split <;> simp_all [readNext]
-
-theorem readAll_chunk {H : Bytes → Bytes} {magic : Nat} {prev rest body stored rest' : Bytes}
-    (h : readNext H magic prev rest = .chunk body stored rest') :
-    readAll H magic prev rest = (body :: (readAll H magic stored rest').1, (readAll H magic stored rest').2) := by
-  rw [readAll]
-  split
-  · rename_i h'; rw [h] at h'; cases h'
-  · rename_i h'; rw [h] at h'; cases h'
-  · rename_i h'; rw [h] at h'; cases h'; rfl
-
-theorem readAll_err {H : Bytes → Bytes} {magic : Nat} {prev rest : Bytes} {e : Err}
-    (h : readNext H magic prev rest = .err e) : readAll H magic prev rest = ([], some e) := by
-  rw [readAll]
-  split
-  · rename_i h'; rw [h] at h'; cases h'
-  · rename_i h'; rw [h] at h'; cases h'; rfl
-  · rename_i h'; rw [h] at h'; cases h'
-
-/-- The reader walks over a well-formed prefix of a file whatever follows it. -/
-theorem readAll_encodeAll_append {H : Bytes → Bytes} {magic : Nat} (P : Params H magic) (bodies : List Bytes)
-    (hb : ∀ b ∈ bodies, b.length ≤ chunkSize) (prev rest : Bytes) :
-    readAll H magic prev (encodeAll H magic prev bodies ++ rest)
-      = (bodies ++ (readAll H magic (chain H magic prev bodies) rest).1,
-         (readAll H magic (chain H magic prev bodies) rest).2) := by
-  induction bodies generalizing prev with
-  | nil => simp [encodeAll, chain]
-  | cons b bs ih =>
-    have hb0 : b.length ≤ chunkSize := hb b (by simp)
-    have hbs : ∀ x ∈ bs, x.length ≤ chunkSize := fun x hx => hb x (by simp [hx])
-    simp only [encodeAll, List.append_assoc, chain]
-    rw [readAll_chunk (readNext_encChunk P prev b _ hb0), ih hbs]
-    simp
-
-/-- C21 (chunk files, part 1): reloading a chunked storage file yields exactly the saved chunks, without error. -/
-theorem read_write_roundtrip {H : Bytes → Bytes} {magic : Nat} (P : Params H magic) (bodies : List Bytes)
+/-- chunk files: saved chunks read back exactly -/
+theorem chunk_roundtrip {H : Bytes → Bytes} {magic : Nat} (P : Params H magic) (bodies : List Bytes)
     (hb : ∀ b ∈ bodies, b.length ≤ chunkSize) :
-    readAll H magic zeroHash (encodeAll H magic zeroHash bodies) = (bodies, none) := by
-  have := readAll_encodeAll_append P bodies hb zeroHash []
-  simp [readAll_nil] at this
-  exact this
-
-
-theorem bodySize_encChunk {H : Bytes → Bytes} {magic : Nat} (prev body rest : Bytes)
-    (hb : body.length ≤ chunkSize) : bodySize (encChunk H magic prev body ++ rest) = body.length := by
-  have h4 : (le 4 magic).length = 4 := le_length _ _
-  have h4' : (le 4 body.length).length = 4 := le_length _ _
-  have hb32 : body.length < 256 ^ 4 := by rw [chunkSize_val] at hb; omega
-  have e : encChunk H magic prev body ++ rest
-      = le 4 magic ++ (le 4 body.length ++ (body ++ (H (hashInput magic prev body) ++ rest))) := by
-    simp [encChunk, header, List.append_assoc]
-  rw [e, bodySize, List.drop_left' h4, List.take_left' h4', unle_le _ _ hb32]
-
-theorem bodySize_take (x : Bytes) (n : Nat) (h : 8 ≤ n) : bodySize (x.take n) = bodySize x := by
-  simp only [bodySize, List.drop_take, List.take_take]
-  congr 2
-  omega
-
-/-- a strict prefix of one encoded chunk is never accepted as a chunk -/
-theorem readAll_strict_prefix {H : Bytes → Bytes} {magic : Nat} (P : Params H magic) (prev prev' body : Bytes)
-    (hb : body.length ≤ chunkSize) (n : Nat) (hn : n < (encChunk H magic prev body).length) :
-    (readAll H magic prev' ((encChunk H magic prev body).take n)).1 = [] ∧
-    ((readAll H magic prev' ((encChunk H magic prev body).take n)).2 = none → n = 0) := by
-  have hlen := encChunk_length H magic prev body P.hlen
-  have htl : ((encChunk H magic prev body).take n).length = n := by
-    rw [List.length_take]; omega
-  by_cases h0 : n = 0
-  · subst h0; simp [readAll_nil]
-  · have hne : ((encChunk H magic prev body).take n).isEmpty = false := by
-      cases h : (encChunk H magic prev body).take n with
-      | nil => rw [h] at htl; simp at htl; omega
-      | cons a l => rfl
-    have : ∃ e, readNext H magic prev' ((encChunk H magic prev body).take n) = .err e := by
-      unfold readNext
-      rw [hne]
-      simp only [Bool.false_eq_true, if_false]
-      by_cases h1 : shortHeader ((encChunk H magic prev body).take n) = true
-      · exact ⟨.headerOverflow, by simp [h1]⟩
-      · simp only [h1, Bool.false_eq_true, if_false]
-        by_cases h2 : wrongMagic magic ((encChunk H magic prev body).take n) = true
-        · exact ⟨.badMagic, by simp [h2]⟩
-        · simp only [h2, Bool.false_eq_true, if_false]
-          by_cases h3 : tooBig ((encChunk H magic prev body).take n) = true
-          · exact ⟨.bodyTooBig, by simp [h3]⟩
-          · simp only [h3, Bool.false_eq_true, if_false]
-            have h24 : 24 ≤ n := by
-              simp [shortHeader, htl, headerSize_val, hashSize_val] at h1; omega
-            have hs : bodySize ((encChunk H magic prev body).take n) = body.length := by
-              rw [bodySize_take _ _ (by omega)]
-              have := bodySize_encChunk (H := H) (magic := magic) prev body [] hb
-              simpa using this
-            have h4 : bodyOverflows ((encChunk H magic prev body).take n) = true := by
-              simp [bodyOverflows, hs, htl, headerSize_val, hashSize_val]; omega
-            exact ⟨.bodyOverflow, by simp [h4]⟩
-    obtain ⟨e, he⟩ := this
-    rw [readAll_err he]; simp
-
-/-- C21 (chunk files, part 2): a file truncated at ANY offset yields a prefix of the saved chunks, every returned
-    chunk intact; and when the reader reports no error the truncated file is exactly the first k chunks. -/
-theorem truncated_gives_prefix {H : Bytes → Bytes} {magic : Nat} (P : Params H magic) (bodies : List Bytes)
-    (hb : ∀ b ∈ bodies, b.length ≤ chunkSize) (prev : Bytes) (n : Nat) :
-    ∃ k, k ≤ bodies.length ∧
-      (readAll H magic prev ((encodeAll H magic prev bodies).take n)).1 = bodies.take k ∧
-      ((readAll H magic prev ((encodeAll H magic prev bodies).take n)).2 = none →
-        (encodeAll H magic prev bodies).take n = encodeAll H magic prev (bodies.take k)) := by
-  induction bodies generalizing prev n with
-  | nil => exact ⟨0, by simp [encodeAll, readAll_nil]⟩
-  | cons b bs ih =>
-    have hb0 : b.length ≤ chunkSize := hb b (by simp)
-    have hbs : ∀ x ∈ bs, x.length ≤ chunkSize := fun x hx => hb x (by simp [hx])
-    simp only [encodeAll]
-    by_cases hn : n < (encChunk H magic prev b).length
-    · have := readAll_strict_prefix P prev prev b hb0 n hn
-      refine ⟨0, by simp, ?_, ?_⟩
-      · rw [List.take_append_of_le_length (by omega)]; simpa using this.1
-      · rw [List.take_append_of_le_length (by omega)]
-        intro h; have := this.2 h; subst this; simp [encodeAll]
-    · have hge : (encChunk H magic prev b).length ≤ n := by omega
-      obtain ⟨k, hk, h1, h2⟩ := ih hbs (H (hashInput magic prev b)) (n - (encChunk H magic prev b).length)
-      have e : (encChunk H magic prev b ++ encodeAll H magic (H (hashInput magic prev b)) bs).take n
-          = encChunk H magic prev b ++ (encodeAll H magic (H (hashInput magic prev b)) bs).take (n - (encChunk H magic prev b).length) := by
-        rw [List.take_append]; rw [List.take_of_length_le hge]
-      refine ⟨k + 1, by simp; omega, ?_, ?_⟩
-      · rw [e, readAll_chunk (readNext_encChunk P prev b _ hb0), h1]; simp
-      · rw [e, readAll_chunk (readNext_encChunk P prev b _ hb0)]
-        intro h; simp only at h
-        rw [h2 h]; simp [encodeAll]
-
-
-/-- Reduction form (DESIGN §4.7): the reader accepts the next chunk iff the structural checks pass and
-    H(previous hash ‖ the bytes it read) equals the stored hash bytes. -/
-theorem accepts_iff (H : Bytes → Bytes) (magic : Nat) (prev rest : Bytes) :
-    (∃ body stored rest', readNext H magic prev rest = .chunk body stored rest') ↔
-      (rest.isEmpty = false ∧ shortHeader rest = false ∧ wrongMagic magic rest = false ∧ tooBig rest = false ∧
-        bodyOverflows rest = false ∧ H (prev ++ hashedPart rest) = storedHash rest) := by
-  unfold readNext
-  by_cases h0 : rest.isEmpty = true
-  · simp [h0]
-  by_cases h1 : shortHeader rest = true
-  · simp [h0, h1]
-  by_cases h2 : wrongMagic magic rest = true
-  · simp [h0, h1, h2]
-  by_cases h3 : tooBig rest = true
-  · simp [h0, h1, h2, h3]
-  by_cases h4 : bodyOverflows rest = true
-  · simp [h0, h1, h2, h3, h4]
-  by_cases h5 : H (prev ++ hashedPart rest) = storedHash rest
-  · simp [h0, h1, h2, h3, h4, h5, hashMismatch]
-  · simp [h0, h1, h2, h3, h4, h5, hashMismatch]
-
-theorem readNext_eof {H : Bytes → Bytes} {magic : Nat} {prev rest : Bytes}
-    (h : readNext H magic prev rest = .eof) : rest = [] := by
-  unfold readNext at h
-  split at h
-  · rename_i hh; simpa using hh
-  split at h; · cases h
-  split at h; · cases h
-  split at h; · cases h
-  split at h; · cases h
-  split at h; · cases h
-  cases h
-
-/-- some byte string other than the saved chunk `j` passes the hash check in the position of chunk `j` -/
-def HashCoincidence (H : Bytes → Bytes) (magic : Nat) (bodies : List Bytes) : Prop :=
-  ∃ (j : Nat) (hj : j < bodies.length) (x : Bytes),
-    H (chain H magic zeroHash (bodies.take j) ++ hashedPart x) = storedHash x ∧
-    hashedPart x ++ storedHash x ≠ encChunk H magic (chain H magic zeroHash (bodies.take j)) bodies[j]
-
-theorem part_stored_prefix (x : Bytes) : hashedPart x ++ storedHash x <+: x := by
-  unfold hashedPart storedHash
-  rw [← List.take_add]
-  exact List.take_prefix _ _
-
-/-- C21 (chunk files, part 3, reduction form): if the first `j` chunks of a file are intact and what follows does not
-    start with the saved chunk `j` (any corruption: flipped bits, overwritten or inserted bytes, a cut), then the reader
-    returns exactly the first `j` chunks and nothing else — unless the hash function maps the damaged bytes to the
-    stored hash value (`HashCoincidence`). -/
-theorem corrupt_detected {H : Bytes → Bytes} {magic : Nat} (P : Params H magic) (bodies : List Bytes)
-    (hb : ∀ b ∈ bodies, b.length ≤ chunkSize) (j : Nat) (hj : j < bodies.length) (rest' : Bytes)
-    (hne : ¬ encChunk H magic (chain H magic zeroHash (bodies.take j)) bodies[j] <+: rest') :
-    ((readAll H magic zeroHash (encodeAll H magic zeroHash (bodies.take j) ++ rest')).1 = bodies.take j ∧
-      ((readAll H magic zeroHash (encodeAll H magic zeroHash (bodies.take j) ++ rest')).2 = none → rest' = []))
-    ∨ HashCoincidence H magic bodies := by
-  have hbt : ∀ b ∈ bodies.take j, b.length ≤ chunkSize := fun b hx => hb b (List.mem_of_mem_take hx)
-  rw [readAll_encodeAll_append P _ hbt]
-  cases hr : readNext H magic (chain H magic zeroHash (bodies.take j)) rest' with
-  | eof =>
-    left
-    have : rest' = [] := readNext_eof hr
-    subst this; simp [readAll_nil]
-  | err e => left; rw [readAll_err hr]; simp
-  | chunk body stored r =>
-    right
-    have := (accepts_iff H magic _ rest').mp ⟨_, _, _, hr⟩
-    refine ⟨j, hj, rest', this.2.2.2.2.2, ?_⟩
-    intro heq
-    exact hne (heq ▸ part_stored_prefix rest')
-
-theorem set_decompose {H : Bytes → Bytes} {magic : Nat} (P : Params H magic) (bodies : List Bytes) (prev : Bytes)
-    (p : Nat) (v : UInt8) (hp : p < (encodeAll H magic prev bodies).length)
-    (hv : (encodeAll H magic prev bodies)[p]? ≠ some v) :
-    ∃ (j : Nat) (hj : j < bodies.length) (rest' : Bytes),
-      (encodeAll H magic prev bodies).set p v = encodeAll H magic prev (bodies.take j) ++ rest' ∧ rest' ≠ [] ∧
-      ¬ encChunk H magic (chain H magic prev (bodies.take j)) bodies[j] <+: rest' := by
-  induction bodies generalizing prev p with
-  | nil => simp [encodeAll] at hp
-  | cons b bs ih =>
-    simp only [encodeAll] at hp hv ⊢
-    by_cases hlt : p < (encChunk H magic prev b).length
-    · refine ⟨0, by simp, _, by simp [encodeAll]; rfl, ?_, ?_⟩
-      · intro h
-        have hl := List.length_set (as := encChunk H magic prev b ++ encodeAll H magic (H (hashInput magic prev b)) bs) (i := p) (a := v)
-        rw [h, List.length_nil] at hl; omega
-      · simp only [List.take_zero, chain, List.getElem_cons_zero]
-        rw [List.set_append_left _ _ hlt]
-        intro hpre
-        have h1 : encChunk H magic prev b = (encChunk H magic prev b).set p v :=
-          (List.prefix_iff_eq_take.mp hpre).trans (List.take_left' (by simp))
-        apply hv
-        rw [List.getElem?_append_left hlt, h1]
-        simp [hlt]
-    · have hge : (encChunk H magic prev b).length ≤ p := by omega
-      have hp' : p - (encChunk H magic prev b).length < (encodeAll H magic (H (hashInput magic prev b)) bs).length := by
-        simp at hp; omega
-      have hv' : (encodeAll H magic (H (hashInput magic prev b)) bs)[p - (encChunk H magic prev b).length]? ≠ some v := by
-        rw [List.getElem?_append_right hge] at hv; exact hv
-      obtain ⟨j, hj, rest', h1, h2, h3⟩ := ih (H (hashInput magic prev b)) _ hp' hv'
-      refine ⟨j + 1, by simp; omega, rest', ?_, h2, ?_⟩
-      · rw [List.set_append_right _ _ hge, h1]; simp [encodeAll]
-      · simpa [chain] using h3
-
-/-- C21 (chunk files, part 3, every single-byte change, hence every single-bit flip): changing any one byte of a
-    saved file makes the reader return a STRICT prefix of the saved chunks together with an error — or exhibits a
-    hash coincidence. -/
-theorem byte_change_detected {H : Bytes → Bytes} {magic : Nat} (P : Params H magic) (bodies : List Bytes)
-    (hb : ∀ b ∈ bodies, b.length ≤ chunkSize) (p : Nat) (v : UInt8)
-    (hp : p < (encodeAll H magic zeroHash bodies).length)
-    (hv : (encodeAll H magic zeroHash bodies)[p]? ≠ some v) :
-    (∃ k, k < bodies.length ∧
-      (readAll H magic zeroHash ((encodeAll H magic zeroHash bodies).set p v)).1 = bodies.take k ∧
-      (readAll H magic zeroHash ((encodeAll H magic zeroHash bodies).set p v)).2 ≠ none)
-    ∨ HashCoincidence H magic bodies := by
-  obtain ⟨j, hj, rest', h1, h2, h3⟩ := set_decompose P bodies zeroHash p v hp hv
-  rw [h1]
-  rcases corrupt_detected P bodies hb j hj rest' h3 with h | h
-  · left; exact ⟨j, hj, h.1, fun hn => h2 (h.2 hn)⟩
-  · right; exact h
-
-
-
-/-! ## the map as an association list -/
-
-def keys (c : Cache) : List Bytes := c.map (·.1)
-
-theorem find_none_iff {c : Cache} {k : Bytes} : find c k = none ↔ k ∉ keys c := by
-  induction c with
-  | nil => simp [find, keys]
-  | cons p c ih =>
-    obtain ⟨k', e⟩ := p
-    by_cases h : k' = k
-    · simp [find, keys, h]
-    · simp only [find, h, if_false, keys, List.map_cons, List.mem_cons, not_or] at ih ⊢
-      constructor
-      · intro hf; exact ⟨fun hh => h hh.symm, ih.mp hf⟩
-      · intro hf; exact ih.mpr hf.2
-
-theorem find_some_mem {c : Cache} {k : Bytes} {e : Entry} (h : find c k = some e) : (k, e) ∈ c := by
-  induction c with
-  | nil => simp [find] at h
-  | cons p c ih =>
-    obtain ⟨k', e'⟩ := p
-    by_cases hk : k' = k
-    · simp [find, hk] at h; subst h; subst hk; simp
-    · simp [find, hk] at h; exact List.mem_cons_of_mem _ (ih h)
-
-theorem mem_find_of_nodup {c : Cache} {k : Bytes} {e : Entry} (hn : (keys c).Nodup) (h : (k, e) ∈ c) : find c k = some e := by
-  induction c with
-  | nil => simp at h
-  | cons p c ih =>
-    obtain ⟨k', e'⟩ := p
-    simp only [keys, List.map_cons, List.nodup_cons] at hn
-    simp only [List.mem_cons, Prod.mk.injEq] at h
-    rcases h with ⟨h1, h2⟩ | h
-    · subst h1; subst h2; simp [find]
-    · have : k' ≠ k := by
-        intro hh; subst hh
-        exact hn.1 (List.mem_map.mpr ⟨(k', e), h, rfl⟩)
-      simp [find, this]; exact ih hn.2 h
-
-theorem mem_erase {c : Cache} {k : Bytes} {p : Bytes × Entry} (h : p ∈ erase c k) : p ∈ c ∧ p.1 ≠ k := by
-  induction c with
-  | nil => simp [erase] at h
-  | cons q c ih =>
-    obtain ⟨k', e'⟩ := q
-    by_cases hk : k' = k
-    · simp only [erase, hk, if_true] at h
-      exact ⟨List.mem_cons_of_mem _ (ih h).1, (ih h).2⟩
-    · simp only [erase, hk, if_false, List.mem_cons] at h
-      rcases h with h | h
-      · subst h; exact ⟨by simp, hk⟩
-      · exact ⟨List.mem_cons_of_mem _ (ih h).1, (ih h).2⟩
-
-theorem keys_erase_sublist (c : Cache) (k : Bytes) : (keys (erase c k)).Sublist (keys c) := by
-  induction c with
-  | nil => simp [erase, keys]
-  | cons q c ih =>
-    obtain ⟨k', e'⟩ := q
-    by_cases hk : k' = k
-    · simp only [erase, hk, if_true, keys, List.map_cons]; exact List.Sublist.cons _ ih
-    · simp only [erase, hk, if_false, keys, List.map_cons]; exact List.Sublist.cons₂ _ ih
-
-theorem find_erase (c : Cache) (k k' : Bytes) : find (erase c k) k' = if k' = k then none else find c k' := by
-  induction c with
-  | nil => simp [erase, find]
-  | cons q c ih =>
-    obtain ⟨k2, e2⟩ := q
-    by_cases hk : k2 = k
-    · subst hk
-      simp only [erase, if_true, ih, find]
-      by_cases h2 : k' = k2
-      · simp [h2]
-      · have : ¬ k2 = k' := fun h => h2 h.symm
-        simp [h2, this]
-    · simp only [erase, hk, if_false, find, ih]
-      by_cases h2 : k2 = k'
-      · subst h2; simp [hk]
-      · simp [h2]
-
-theorem totals_erase {c : Cache} {k : Bytes} {e : Entry} (hn : (keys c).Nodup) (h : find c k = some e) :
-    totalSize (erase c k) = totalSize c - elementSize k ∧ totalTS (erase c k) = totalTS c - e.ts := by
-  induction c with
-  | nil => simp [find] at h
-  | cons q c ih =>
-    obtain ⟨k', e'⟩ := q
-    simp only [keys, List.map_cons, List.nodup_cons] at hn
-    by_cases hk : k' = k
-    · subst hk
-      simp only [find, if_true, Option.some.injEq] at h; subst h
-      have hno : find c k' = none := find_none_iff.mpr hn.1
-      have he : erase c k' = c := by
-        clear ih hn
-        induction c with
-        | nil => rfl
-        | cons r c ih2 =>
-          obtain ⟨k3, e3⟩ := r
-          by_cases h3 : k3 = k'
-          · simp [find, h3] at hno
-          · simp only [find, h3, if_false] at hno
-            simp [erase, h3, ih2 hno]
-      simp only [erase, if_true, he, totalSize, totalTS, List.map_cons, List.sum_cons]
-      constructor <;> omega
-    · simp only [find, hk, if_false] at h
-      have := ih hn.2 h
-      simp only [erase, hk, if_false, totalSize, totalTS, List.map_cons, List.sum_cons] at this ⊢
-      constructor <;> omega
-
-theorem mem_put {c : Cache} {k : Bytes} {e : Entry} {p : Bytes × Entry} (h : p ∈ put c k e) : p = (k, e) ∨ p ∈ c := by
-  induction c with
-  | nil => simp [put] at h; exact Or.inl h
-  | cons q c ih =>
-    obtain ⟨k', e'⟩ := q
-    by_cases hk : k' = k
-    · simp only [put, hk, if_true, List.mem_cons] at h
-      rcases h with h | h
-      · exact Or.inl h
-      · exact Or.inr (List.mem_cons_of_mem _ h)
-    · simp only [put, hk, if_false, List.mem_cons] at h
-      rcases h with h | h
-      · exact Or.inr (by simp [h])
-      · rcases ih h with h | h
-        · exact Or.inl h
-        · exact Or.inr (List.mem_cons_of_mem _ h)
-
-theorem find_put (c : Cache) (k k' : Bytes) (e : Entry) : find (put c k e) k' = if k' = k then some e else find c k' := by
-  induction c with
-  | nil =>
-    by_cases h : k = k'
-    · simp [put, find, h]
-    · have : ¬ k' = k := fun hh => h hh.symm
-      simp [put, find, h, this]
-  | cons q c ih =>
-    obtain ⟨k2, e2⟩ := q
-    by_cases hk : k2 = k
-    · subst hk
-      simp only [put, if_true, find]
-      by_cases h2 : k2 = k'
-      · simp [h2]
-      · have : ¬ k' = k2 := fun hh => h2 hh.symm
-        simp [h2, this]
-    · simp only [put, hk, if_false, find, ih]
-      by_cases h2 : k2 = k'
-      · subst h2; simp [hk]
-      · simp [h2]
-
-theorem put_absent {c : Cache} {k : Bytes} (e : Entry) (h : find c k = none) :
-    keys (put c k e) = keys c ++ [k] ∧ totalSize (put c k e) = totalSize c + elementSize k ∧
-    totalTS (put c k e) = totalTS c + e.ts := by
-  induction c with
-  | nil => simp [put, keys, totalSize, totalTS]
-  | cons q c ih =>
-    obtain ⟨k', e'⟩ := q
-    by_cases hk : k' = k
-    · simp [find, hk] at h
-    · simp only [find, hk, if_false] at h
-      have := ih h
-      simp only [put, hk, if_false, keys, totalSize, totalTS, List.map_cons, List.sum_cons, List.cons_append] at this ⊢
-      refine ⟨by rw [this.1], by omega, by omega⟩
-
-theorem put_present {c : Cache} {k : Bytes} {e0 : Entry} (e : Entry) (h : find c k = some e0) :
-    keys (put c k e) = keys c ∧ totalSize (put c k e) = totalSize c ∧
-    totalTS (put c k e) = totalTS c - e0.ts + e.ts := by
-  induction c with
-  | nil => simp [find] at h
-  | cons q c ih =>
-    obtain ⟨k', e'⟩ := q
-    by_cases hk : k' = k
-    · subst hk
-      simp only [find, if_true, Option.some.injEq] at h; subst h
-      simp only [put, if_true, keys, totalSize, totalTS, List.map_cons, List.sum_cons]
-      refine ⟨trivial, trivial, by omega⟩
-    · simp only [find, hk, if_false] at h
-      have := ih h
-      simp only [put, hk, if_false, keys, totalSize, totalTS, List.map_cons, List.sum_cons] at this ⊢
-      refine ⟨by rw [this.1], by omega, by omega⟩
-
-
-/-! ## invariants of the cache state -/
-
-/-- "size and access-time accounting exact": one entry per string, and the two running sums equal the sums over the map -/
-structure Exact (s : St) : Prop where
-  nodup : (keys s.cache).Nodup
-  size : s.sumSize = totalSize s.cache
-  ts : s.sumTS = totalTS s.cache
-
-/-- every cached (string, value) satisfies `Q` -/
-def AllGood (Q : Bytes → Int → Prop) (s : St) : Prop := ∀ p ∈ s.cache, Q p.1 p.2.val
-
-theorem elementSize_nonneg (k : Bytes) : 0 ≤ elementSize k := by simp [elementSize]; omega
-
-theorem present_false_iff {s : St} {k : Bytes} : present s k = false ↔ find s.cache k = none := by
-  simp [present]
-
-theorem exact_addItem {s : St} {k : Bytes} (v : Int) (ts : Nat) (h : Exact s) (hk : find s.cache k = none) :
-    Exact (addItem s k v ts) := by
-  have := put_absent (c := s.cache) (k := k) { val := v, ts := ts } hk
-  refine ⟨?_, ?_, ?_⟩
-  · simp only [addItem]; rw [this.1]
-    exact List.nodup_append.mpr ⟨h.nodup, by simp, by
-      intro a ha b hb; simp at hb; subst hb; intro hab; subst hab; exact (find_none_iff.mp hk) ha⟩
-  · simp only [addItem]; rw [this.2.1, h.size]
-  · simp only [addItem]; rw [this.2.2, h.ts]
-
-theorem exact_removeItem {s : St} {k : Bytes} {e : Entry} (h : Exact s) (hk : find s.cache k = some e) :
-    Exact (removeItem s k e.ts) := by
-  have := totals_erase h.nodup hk
-  refine ⟨?_, ?_, ?_⟩
-  · exact List.Sublist.nodup (keys_erase_sublist _ _) h.nodup
-  · simp only [removeItem]; rw [this.1, h.size]
-  · simp only [removeItem]; rw [this.2, h.ts]
-
-theorem good_addItem {Q : Bytes → Int → Prop} {s : St} {k : Bytes} {v : Int} (ts : Nat) (h : AllGood Q s) (hq : Q k v) :
-    AllGood Q (addItem s k v ts) := by
-  intro p hp
-  rcases mem_put hp with hp | hp
-  · subst hp; exact hq
-  · exact h p hp
-
-theorem good_removeItem {Q : Bytes → Int → Prop} {s : St} (k : Bytes) (ts : Nat) (h : AllGood Q s) :
-    AllGood Q (removeItem s k ts) := fun p hp => h p (mem_erase hp).1
-
-/-! ### GetValue -/
-
-theorem exact_getValue {s : St} (ts : Nat) (k : Bytes) (h : Exact s) : Exact (getValue s ts k).1 := by
-  unfold getValue
-  split
-  · exact h
-  · rename_i e he
-    split
-    · exact h
-    · have := put_present (c := s.cache) (k := k) { e with ts := ts } he
-      refine ⟨?_, ?_, ?_⟩
-      · simp only; rw [this.1]; exact h.nodup
-      · simp only; rw [this.2.1]; exact h.size
-      · simp only; rw [this.2.2, h.ts]
-
-theorem good_getValue {Q : Bytes → Int → Prop} {s : St} (ts : Nat) (k : Bytes) (h : AllGood Q s) :
-    AllGood Q (getValue s ts k).1 := by
-  unfold getValue
-  split
-  · exact h
-  · rename_i e he
-    split
-    · exact h
-    · intro p hp
-      rcases mem_put hp with hp | hp
-      · subst hp; exact h (k, e) (find_some_mem he)
-      · exact h p hp
-
-/-- whatever GetValue returns is the value stored for exactly this string -/
-theorem getValue_result {s : St} {ts : Nat} {k : Bytes} {v : Int} (h : (getValue s ts k).2 = some v) :
-    ∃ e, find s.cache k = some e ∧ e.val = v := by
-  unfold getValue at h
-  split at h
-  · cases h
-  · rename_i e he
-    split at h <;> (cases h; exact ⟨e, he, rfl⟩)
-
-theorem getValue_same_fields (s : St) (ts : Nat) (k : Bytes) :
-    (getValue s ts k).1.sumSize = s.sumSize ∧ (getValue s ts k).1.maxSize = s.maxSize := by
-  unfold getValue
-  split
-  · exact ⟨rfl, rfl⟩
-  · split <;> exact ⟨rfl, rfl⟩
-
-
-/-! ### AddValues -/
-
-theorem skipDup_false_fixed {s : St} {k : Bytes} (h : skipDup .fixed s k = false) : find s.cache k = none := by
-  simp [skipDup] at h; exact present_false_iff.mp h
-
-theorem exact_addAll (now : Nat) (s : St) (ps : List Pair) (h : Exact s) : Exact (addAll .fixed now s ps) := by
-  induction ps generalizing s with
-  | nil => exact h
-  | cons p ps ih =>
-    simp only [addAll]
-    by_cases hd : skipDup .fixed s p.1 = true
-    · simp only [hd, if_true]; exact ih s h
-    · simp only [hd, Bool.false_eq_true, if_false]
-      exact ih _ (exact_addItem _ _ h (skipDup_false_fixed (by simpa using hd)))
-
-theorem exact_addFit (now : Nat) (s : St) (ps : List Pair) (h : Exact s) : Exact (addFit .fixed now s ps) := by
-  induction ps generalizing s with
-  | nil => exact h
-  | cons p ps ih =>
-    simp only [addFit]
-    by_cases hd : skipDup .fixed s p.1 = true
-    · simp only [hd, if_true]; exact ih s h
-    · simp only [hd, Bool.false_eq_true, if_false]
-      by_cases hr : noRoom s p.1 = true
-      · simp only [hr, if_true]; exact h
-      · simp only [hr, Bool.false_eq_true, if_false]
-        exact ih _ (exact_addItem _ _ h (skipDup_false_fixed (by simpa using hd)))
-
-theorem exact_evict (now : Nat) (ns : Int) (s : St) (ks : List Bytes) (h : Exact s) : Exact (evict now ns s ks) := by
-  induction ks generalizing s with
-  | nil => exact h
-  | cons k ks ih =>
-    simp only [evict]
-    split
-    · exact ih s h
-    · rename_i e he
-      split
-      · exact h
-      · split
-        · exact h
-        · exact ih _ (exact_removeItem h he)
-
-theorem exact_removeVisited (now : Nat) (s : St) (ks : List Bytes) (h : Exact s) : Exact (removeVisited now s ks) := by
-  induction ks generalizing s with
-  | nil => exact h
-  | cons k ks ih =>
-    simp only [removeVisited]
-    split
-    · exact ih s h
-    · rename_i e he
-      split
-      · exact ih _ (exact_removeItem h he)
-      · exact ih s h
-
-theorem exact_version {s : St} (n : Nat) (h : Exact s) : Exact { s with version := n } := ⟨h.nodup, h.size, h.ts⟩
-
-theorem exact_addValues (s : St) (now : Nat) (pairs : List Pair) (cands : List Bytes) (h : Exact s) :
-    Exact (addValues .fixed s now pairs cands) := by
-  unfold addValues
-  simp only
-  split
-  · exact h
-  · split
-    · exact exact_version _ (exact_addAll _ _ _ h)
-    · exact exact_version _ (exact_addFit _ _ _ (exact_evict _ _ _ _ h))
-
-/-- pairs that may be inserted: those that passed the filter of THIS call -/
-theorem good_addAll {Q : Bytes → Int → Prop} (v : Variant) (now : Nat) (s : St) (ps : List Pair)
-    (h : AllGood Q s) (hq : ∀ p ∈ ps, Q p.1 p.2) : AllGood Q (addAll v now s ps) := by
-  induction ps generalizing s with
-  | nil => exact h
-  | cons p ps ih =>
-    have hq' : ∀ q ∈ ps, Q q.1 q.2 := fun q hq2 => hq q (List.mem_cons_of_mem _ hq2)
-    simp only [addAll]
-    split
-    · exact ih s h hq'
-    · exact ih _ (good_addItem _ h (hq p (by simp))) hq'
-
-theorem good_addFit {Q : Bytes → Int → Prop} (v : Variant) (now : Nat) (s : St) (ps : List Pair)
-    (h : AllGood Q s) (hq : ∀ p ∈ ps, Q p.1 p.2) : AllGood Q (addFit v now s ps) := by
-  induction ps generalizing s with
-  | nil => exact h
-  | cons p ps ih =>
-    have hq' : ∀ q ∈ ps, Q q.1 q.2 := fun q hq2 => hq q (List.mem_cons_of_mem _ hq2)
-    simp only [addFit]
-    split
-    · exact ih s h hq'
-    · split
-      · exact h
-      · exact ih _ (good_addItem _ h (hq p (by simp))) hq'
-
-theorem good_evict {Q : Bytes → Int → Prop} (now : Nat) (ns : Int) (s : St) (ks : List Bytes) (h : AllGood Q s) :
-    AllGood Q (evict now ns s ks) := by
-  induction ks generalizing s with
-  | nil => exact h
-  | cons k ks ih =>
-    simp only [evict]
-    split
-    · exact ih s h
-    · split
-      · exact h
-      · split
-        · exact h
-        · exact ih _ (good_removeItem _ _ h)
-
-theorem good_removeVisited {Q : Bytes → Int → Prop} (now : Nat) (s : St) (ks : List Bytes) (h : AllGood Q s) :
-    AllGood Q (removeVisited now s ks) := by
-  induction ks generalizing s with
-  | nil => exact h
-  | cons k ks ih =>
-    simp only [removeVisited]
-    split
-    · exact ih s h
-    · split
-      · exact ih _ (good_removeItem _ _ h)
-      · exact ih s h
-
-/-- what the filter loop of AddValues lets through -/
-theorem acceptable_spec {s : St} {p : Pair} (h : acceptable s p = true) : p.1 ≠ [] ∧ isMarker p.2 = false := by
-  simp [acceptable] at h
-  exact ⟨by intro hh; simp [hh] at h, h.2⟩
-
-theorem good_addValues {Q : Bytes → Int → Prop} (v : Variant) (s : St) (now : Nat) (pairs : List Pair) (cands : List Bytes)
-    (h : AllGood Q s) (hq : ∀ p ∈ pairs, p.1 ≠ [] → isMarker p.2 = false → Q p.1 p.2) :
-    AllGood Q (addValues v s now pairs cands) := by
-  have hps : ∀ p ∈ pairs.filter (acceptable s), Q p.1 p.2 := by
-    intro p hp
-    have := List.mem_filter.mp hp
-    have hs := acceptable_spec this.2
-    exact hq p this.1 hs.1 hs.2
-  unfold addValues
-  simp only
-  split
-  · exact h
-  · split
-    · exact good_addAll v now s _ h hps
-    · exact good_addFit v now _ _ (good_evict _ _ _ _ h) hps
-
-/-! ### size bound -/
-
-theorem sumSize_addAll_le (v : Variant) (now : Nat) (s : St) (ps : List Pair) :
-    (addAll v now s ps).sumSize ≤ s.sumSize + newSize ps ∧ (addAll v now s ps).maxSize = s.maxSize := by
-  induction ps generalizing s with
-  | nil => simp [addAll, newSize]
-  | cons p ps ih =>
-    have hn : newSize (p :: ps) = elementSize p.1 + newSize ps := by simp [newSize]
-    have h0 := elementSize_nonneg p.1
-    simp only [addAll]
-    split
-    · have := ih s; exact ⟨by omega, this.2⟩
-    · have := ih (addItem s p.1 p.2 now)
-      simp only [addItem] at this ⊢
-      exact ⟨by omega, this.2⟩
-
-theorem sumSize_addFit_le (v : Variant) (now : Nat) (s : St) (ps : List Pair) :
-    (addFit v now s ps).sumSize ≤ max s.maxSize s.sumSize ∧ (addFit v now s ps).maxSize = s.maxSize := by
-  induction ps generalizing s with
-  | nil => simp [addFit]; omega
-  | cons p ps ih =>
-    simp only [addFit]
-    split
-    · exact ih s
-    · split
-      · exact ⟨by omega, rfl⟩
-      · rename_i hr
-        have := ih (addItem s p.1 p.2 now)
-        simp only [noRoom, decide_eq_true_eq, Int.not_lt] at hr
-        simp only [addItem] at this ⊢
-        exact ⟨by omega, this.2⟩
-
-theorem sumSize_evict_le (now : Nat) (ns : Int) (s : St) (ks : List Bytes) :
-    (evict now ns s ks).sumSize ≤ s.sumSize ∧ (evict now ns s ks).maxSize = s.maxSize := by
-  induction ks generalizing s with
-  | nil => simp [evict]
-  | cons k ks ih =>
-    simp only [evict]
-    split
-    · exact ih s
-    · rename_i e he
-      split
-      · simp
-      · split
-        · simp
-        · have := ih (removeItem s k e.ts)
-          have h0 := elementSize_nonneg k
-          simp only [removeItem] at this ⊢
-          exact ⟨by omega, this.2⟩
-
-/-- C21 (cache, size): AddValues never grows the cache beyond the configured size: afterwards
-    `sumSize ≤ max maxSize (sumSize before)` — for every candidate list, in both variants of the code. -/
-theorem addValues_size_bound (v : Variant) (s : St) (now : Nat) (pairs : List Pair) (cands : List Bytes) :
-    (addValues v s now pairs cands).sumSize ≤ max s.maxSize s.sumSize ∧
-    (addValues v s now pairs cands).maxSize = s.maxSize := by
-  unfold addValues
-  simp only
-  split
-  · exact ⟨by omega, rfl⟩
-  · split
-    · rename_i hf
-      have := sumSize_addAll_le v now s (pairs.filter (acceptable s))
-      simp only [fits, decide_eq_true_eq] at hf
-      show (addAll v now s (pairs.filter (acceptable s))).sumSize ≤ _ ∧ (addAll v now s (pairs.filter (acceptable s))).maxSize = _
-      exact ⟨by omega, this.2⟩
-    · have h1 := sumSize_evict_le now (newSize (pairs.filter (acceptable s))) s cands
-      have h2 := sumSize_addFit_le v now (evict now (newSize (pairs.filter (acceptable s))) s cands) (pairs.filter (acceptable s))
-      show (addFit v now (evict now (newSize (pairs.filter (acceptable s))) s cands) (pairs.filter (acceptable s))).sumSize ≤ _ ∧
-        (addFit v now (evict now (newSize (pairs.filter (acceptable s))) s cands) (pairs.filter (acceptable s))).maxSize = _
-      exact ⟨by omega, by rw [h2.2, h1.2]⟩
-
-
-/-! ### load -/
-
-theorem exact_loadInsert {s : St} (it : Bytes × Entry) (h : Exact s) : Exact (loadInsert s it) := by
-  unfold loadInsert
-  split
-  · exact h
-  · rename_i hp
-    have hk : find s.cache it.1 = none := present_false_iff.mp (by simpa using hp)
-    have := put_absent (c := s.cache) (k := it.1) it.2 hk
-    refine ⟨?_, ?_, ?_⟩
-    · simp only; rw [this.1]
-      exact List.nodup_append.mpr ⟨h.nodup, by simp, by
-        intro a ha b hb; simp at hb; subst hb; intro hab; subst hab; exact (find_none_iff.mp hk) ha⟩
-    · simp only; rw [this.2.1, h.size]
-    · simp only; rw [this.2.2, h.ts]
-
-theorem exact_loadItems (s : St) (body : Bytes) (h : Exact s) : Exact (loadItems s body).1 := by
-  fun_induction loadItems s body with
-  | case1 s body hb => exact h
-  | case2 s body hb e he => exact h
-  | case3 s body hb it rest he ih => exact ih (exact_loadInsert it h)
-
-theorem exact_loadRest (H : Bytes → Bytes) (s : St) (prev rest : Bytes) (h : Exact s) :
-    Exact (loadRest H s prev rest).1 := by
-  fun_induction loadRest H s prev rest with
-  | case1 s prev rest hr => exact h
-  | case2 s prev rest e hr => exact h
-  | case3 s prev rest body stored rest' hr hb => exact h
-  | case4 s prev rest body stored rest' hr hb r hsome => exact exact_loadItems s body h
-  | case5 s prev rest body stored rest' hr hb r hnone ih => exact ih (exact_loadItems s body h)
-
-theorem exact_empty (m t : Int) (st : Chunked.St) : Exact { maxSize := m, maxTTL := t, store := st } :=
-  ⟨by simp [keys], by simp [totalSize], by simp [totalTS]⟩
-
-/-- C21 (cache, load): whatever bytes are in the file, the cache built by `load` has exact accounting -/
-theorem exact_loadNew (H : Bytes → Bytes) (file : Bytes) (maxSize : Int) : Exact (loadNew H file maxSize).1 :=
-  exact_loadRest H _ _ _ (exact_empty _ _ _)
-
-
-/-! ## op sequences -/
-
-inductive Op
-  | add (now : Nat) (pairs : List Pair) (cands : List Bytes)
-  | get (ts : Nat) (k : Bytes)
-  | ttl (now : Nat) (visited : List Bytes)
-  | setSizeTTL (maxSize maxTTL : Int)
-  | stats
-  | save (order : Cache)
-  /-- restart: a fresh cache is loaded from the stored file after an arbitrary transformation `dmg` of its bytes
-      (`id` = clean restart, `(·.take n)` = truncation, `(·.set p v)` = a changed byte, a constant = any file at all) -/
-  | reload (dmg : Bytes → Bytes) (maxSize : Int)
-
-def step (H : Bytes → Bytes) (v : Variant) (s : St) : Op → St
-  | .add now pairs cands => addValues v s now pairs cands
-  | .get ts k => (getValue s ts k).1
-  | .ttl now visited => removeByTTL s now visited
-  | .setSizeTTL a b => setSizeTTL s a b
-  | .stats => stats s
-  | .save order => (save H s order).1
-  | .reload dmg m => (loadNew H (dmg s.store.file) m).1
-
-def run (H : Bytes → Bytes) (v : Variant) (s : St) (ops : List Op) : St := ops.foldl (step H v) s
-
-/-- an empty cache with limits `m`, `t` over an empty file -/
-def init (m t : Int) : St := { maxSize := m, maxTTL := t, store := Chunked.new [] }
-
-theorem save_cache (H : Bytes → Bytes) (s : St) (order : Cache) :
-    (save H s order).1.cache = s.cache ∧ (save H s order).1.sumSize = s.sumSize ∧ (save H s order).1.sumTS = s.sumTS ∧
-    (save H s order).1.maxSize = s.maxSize := by
-  unfold save; split <;> simp
-
-theorem exact_step (H : Bytes → Bytes) (s : St) (op : Op) (h : Exact s) : Exact (step H .fixed s op) := by
-  cases op with
-  | add now pairs cands => exact exact_addValues s now pairs cands h
-  | get ts k => exact exact_getValue ts k h
-  | ttl now visited => exact exact_removeVisited now s visited h
-  | setSizeTTL a b => exact ⟨h.nodup, h.size, h.ts⟩
-  | stats => exact ⟨h.nodup, h.size, h.ts⟩
-  | save order =>
-    have := save_cache H s order
-    exact ⟨by simp only [step]; rw [this.1]; exact h.nodup, by simp only [step]; rw [this.1, this.2.1]; exact h.size,
-      by simp only [step]; rw [this.1, this.2.2.1]; exact h.ts⟩
-  | reload dmg m => exact exact_loadNew H _ m
-
-/-- C21 (cache, accounting): for EVERY sequence of add / get / evict-by-TTL / resize / stats / save / restart operations —
-    every eviction candidate list, every visit order, every write order, every damage to the file — the cache holds at
-    most one entry per string, `sumSize` is exactly the sum of the element sizes and `sumTS` exactly the sum of the access
-    times.  (Fixed code; `dupAdd_breaks_accounting` below shows the pinned code violates it.) -/
-theorem accounting_exact (H : Bytes → Bytes) (ops : List Op) (s : St) (h : Exact s) : Exact (run H .fixed s ops) := by
-  induction ops generalizing s with
-  | nil => exact h
-  | cons op ops ih => exact ih _ (exact_step H s op h)
-
-theorem accounting_exact_from_init (H : Bytes → Bytes) (m t : Int) (ops : List Op) : Exact (run H .fixed (init m t) ops) :=
-  accounting_exact H ops _ (exact_empty _ _ _)
-
-theorem totals_nonneg (c : Cache) : 0 ≤ totalSize c ∧ 0 ≤ totalTS c := by
-  induction c with
-  | nil => simp [totalSize, totalTS]
-  | cons p c ih =>
-    have := elementSize_nonneg p.1
-    simp only [totalSize, totalTS, List.map_cons, List.sum_cons] at ih ⊢
-    constructor <;> omega
-
-/-- the `panic("sumSize negative …")` / `panic("sumTS negative …")` states are unreachable -/
-theorem sums_never_negative (H : Bytes → Bytes) (m t : Int) (ops : List Op) :
-    0 ≤ (run H .fixed (init m t) ops).sumSize ∧ 0 ≤ (run H .fixed (init m t) ops).sumTS := by
-  have h := accounting_exact_from_init H m t ops
-  rw [h.size, h.ts]; exact totals_nonneg _
-
-/-- operations that neither change the limit nor restart -/
-def Op.plain : Op → Prop
-  | .setSizeTTL _ _ => False
-  | .reload _ _ => False
-  | _ => True
-
-theorem removeVisited_size (now : Nat) (s : St) (ks : List Bytes) :
-    (removeVisited now s ks).sumSize ≤ s.sumSize ∧ (removeVisited now s ks).maxSize = s.maxSize := by
-  induction ks generalizing s with
-  | nil => simp [removeVisited]
-  | cons k ks ih =>
-    simp only [removeVisited]
-    split
-    · exact ih s
-    · rename_i e he
-      split
-      · have := ih (removeItem s k e.ts)
-        have h0 := elementSize_nonneg k
-        simp only [removeItem] at this ⊢
-        exact ⟨by omega, this.2⟩
-      · exact ih s
-
-theorem step_size_bound (H : Bytes → Bytes) (v : Variant) (s : St) (op : Op) (hp : op.plain) :
-    (step H v s op).sumSize ≤ max s.maxSize s.sumSize ∧ (step H v s op).maxSize = s.maxSize := by
-  cases op with
-  | add now pairs cands => exact addValues_size_bound v s now pairs cands
-  | get ts k => have := getValue_same_fields s ts k; simp only [step]; exact ⟨by omega, this.2⟩
-  | ttl now visited => have := removeVisited_size now s visited; simp only [step, removeByTTL]; exact ⟨by omega, this.2⟩
-  | setSizeTTL a b => exact absurd hp (by simp [Op.plain])
-  | stats => simp only [step, stats]; exact ⟨by omega, trivial⟩
-  | save order => have := save_cache H s order; simp only [step]; exact ⟨by omega, this.2.2.2⟩
-  | reload dmg m => exact absurd hp (by simp [Op.plain])
-
-/-- C21 (cache, size): as long as the limit is not changed, a cache that is within its configured size stays within it —
-    for every op sequence, every candidate list, both variants of the code. -/
-theorem size_never_exceeds (H : Bytes → Bytes) (v : Variant) (ops : List Op) (s : St) (hp : ∀ op ∈ ops, op.plain)
-    (h : s.sumSize ≤ s.maxSize) :
-    (run H v s ops).sumSize ≤ s.maxSize ∧ (run H v s ops).maxSize = s.maxSize := by
-  induction ops generalizing s with
-  | nil => exact ⟨h, rfl⟩
-  | cons op ops ih =>
-    have h1 := step_size_bound H v s op (hp op (by simp))
-    have := ih (step H v s op) (fun o ho => hp o (List.mem_cons_of_mem _ ho)) (by omega)
-    simp only [run, List.foldl_cons] at this ⊢
-    exact ⟨by omega, by omega⟩
-
-/-! ### values -/
-
-/-- `(k, v)` may be served: the string is not empty, the value is no marker (0, mapping-flood, does-not-exist) and
-    the pair was handed to AddValues -/
-def GoodVal (A : List Pair) (k : Bytes) (v : Int) : Prop := k ≠ [] ∧ isMarker v = false ∧ (k, v) ∈ A
-
-/-- all pairs ever handed to AddValues -/
-def added : List Op → List Pair
-  | [] => []
-  | .add _ pairs _ :: ops => pairs ++ added ops
-  | _ :: ops => added ops
-
-/-- hypothesis about restarts: everything `load` accepts from the (possibly damaged) file satisfies `Q`.
-    `reload_after_save_good` (below) discharges it for files written by Save and read back intact or truncated anywhere;
-    `corrupt_detected` reduces the corrupted case to a hash coincidence. -/
-def ReloadsGood (H : Bytes → Bytes) (v : Variant) (Q : Bytes → Int → Prop) : St → List Op → Prop
-  | _, [] => True
-  | s, op :: ops =>
-    (match op with
-     | .reload dmg m => AllGood Q (loadNew H (dmg s.store.file) m).1
-     | _ => True) ∧ ReloadsGood H v Q (step H v s op) ops
-
-theorem good_step (H : Bytes → Bytes) (v : Variant) (A : List Pair) (s : St) (op : Op) (h : AllGood (GoodVal A) s)
-    (hA : ∀ now pairs cands, op = .add now pairs cands → ∀ p ∈ pairs, p ∈ A)
-    (hr : ∀ dmg m, op = .reload dmg m → AllGood (GoodVal A) (loadNew H (dmg s.store.file) m).1) :
-    AllGood (GoodVal A) (step H v s op) := by
-  cases op with
-  | add now pairs cands =>
-    exact good_addValues v s now pairs cands h (fun p hp h1 h2 => ⟨h1, h2, hA now pairs cands rfl p hp⟩)
-  | get ts k => exact good_getValue ts k h
-  | ttl now visited => exact good_removeVisited now s visited h
-  | setSizeTTL a b => exact h
-  | stats => exact h
-  | save order => intro p hp; simp only [step] at hp; rw [(save_cache H s order).1] at hp; exact h p hp
-  | reload dmg m => exact hr dmg m rfl
-
-theorem good_run (H : Bytes → Bytes) (v : Variant) (A : List Pair) (ops : List Op) (s : St) (h : AllGood (GoodVal A) s)
-    (hA : ∀ p ∈ added ops, p ∈ A) (hr : ReloadsGood H v (GoodVal A) s ops) : AllGood (GoodVal A) (run H v s ops) := by
-  induction ops generalizing s with
-  | nil => exact h
-  | cons op ops ih =>
-    have hs : AllGood (GoodVal A) (step H v s op) := by
-      apply good_step H v A s op h
-      · intro now pairs cands he p hp; subst he; exact hA p (by simp [added, hp])
-      · intro dmg m he; subst he; exact hr.1
-    apply ih _ hs
-    · intro p hp; apply hA
-      cases op <;> simp [added, hp]
-    · exact hr.2
-
-/-- C21 (cache, values): after ANY op sequence from an empty cache, every cached entry — hence everything GetValue can
-    return — has a non-empty string, a non-marker value, and is a (string, value) pair that some AddValues call of the
-    sequence was given for exactly this string. (Apply it to a prefix of the history to see that the pair was added BEFORE.) -/
-theorem cache_values_are_added (H : Bytes → Bytes) (v : Variant) (m t : Int) (ops : List Op)
-    (hr : ReloadsGood H v (GoodVal (added ops)) (init m t) ops) :
-    AllGood (GoodVal (added ops)) (run H v (init m t) ops) :=
-  good_run H v _ ops _ (by intro p hp; simp [init] at hp) (fun _ hp => hp) hr
-
-/-- C21 (cache, GetValue): never a value for another string, never a marker value -/
-theorem get_returns_added_value (H : Bytes → Bytes) (v : Variant) (m t : Int) (ops : List Op) (ts : Nat) (k : Bytes) (x : Int)
-    (hr : ReloadsGood H v (GoodVal (added ops)) (init m t) ops)
-    (hg : (getValue (run H v (init m t) ops) ts k).2 = some x) :
-    k ≠ [] ∧ x ≠ 0 ∧ x ≠ markerFlood ∧ x ≠ markerNotExist ∧ (k, x) ∈ added ops := by
-  obtain ⟨e, he, hx⟩ := getValue_result hg
-  have := cache_values_are_added H v m t ops hr (k, e) (find_some_mem he)
-  subst hx
-  obtain ⟨h1, h2, h3⟩ := this
-  simp only [isMarker, Bool.or_eq_false_iff, beq_eq_false_iff_ne] at h2
-  exact ⟨h1, h2.1.1, h2.1.2, h2.2, h3⟩
-
-
-
-
-/-! ## the item codec of Save / load -/
-
-/-- what the Go types guarantee about an entry (int32 value, uint32 access time) plus a string shorter than 2^24 bytes
-    (anything longer cannot be an item of a chunk anyway) -/
-structure WFItem (it : Bytes × Entry) : Prop where
-  klen : it.1.length < 16777216
-  vlo : -2147483648 ≤ it.2.val
-  vhi : it.2.val < 2147483648
-  ts32 : it.2.ts < 4294967296
-
-theorem readU32_le4 (n : Nat) (rest : Bytes) (h : n < 4294967296) : readU32 (le 4 n ++ rest) = .ok (n, rest) := by
-  have h4 : (le 4 n).length = 4 := le_length _ _
-  unfold readU32
-  have : ¬ ((le 4 n ++ rest).length < 4) := by simp [h4]
-  simp only [this, if_false]
-  rw [List.take_left' h4, List.drop_left' h4, unle_le 4 n (by omega)]
-
-theorem int_u32_roundtrip (v : Int) (h1 : -2147483648 ≤ v) (h2 : v < 2147483648) : intOfU32 (u32OfInt v) = v := by
-  unfold intOfU32 u32OfInt
-  by_cases hv : 0 ≤ v
-  · have : v % 4294967296 = v := Int.emod_eq_of_lt hv (by omega)
-    rw [this]
-    have h3 : ¬ (v.toNat ≥ 2147483648) := by omega
-    simp only [h3, if_false]; omega
-  · have : v % 4294967296 = v + 4294967296 := by omega
-    rw [this]
-    have h3 : (v + 4294967296).toNat ≥ 2147483648 := by omega
-    simp only [h3, if_true]; omega
-
-theorem paddingLen_lt (l : Nat) : paddingLen l < 4 := by unfold paddingLen; omega
-
-theorem readStringTail_ok (k rest : Bytes) (p : Nat) :
-    readStringTail (k ++ (List.replicate (paddingLen p) 0 ++ rest)) k.length p = .ok (k, rest) := by
-  unfold readStringTail
-  have h1 : ¬ ((k ++ (List.replicate (paddingLen p) 0 ++ rest)).length < k.length) := by simp
-  have h2 : ¬ ((k ++ (List.replicate (paddingLen p) 0 ++ rest)).length < k.length + paddingLen p) := by simp
-  have h3 : ((k ++ (List.replicate (paddingLen p) (0 : UInt8) ++ rest)).drop k.length).take (paddingLen p)
-      = List.replicate (paddingLen p) 0 := by
-    rw [List.drop_left' rfl]; exact List.take_left' (by simp)
-  have h4 : (List.replicate (paddingLen p) (0 : UInt8)).any (· != 0) = false := by
-    simp
-  simp only [h1, h2, if_false, h3, h4, Bool.false_eq_true]
-  rw [List.take_left' rfl]
-  have : k ++ (List.replicate (paddingLen p) 0 ++ rest) = (k ++ List.replicate (paddingLen p) 0) ++ rest := by simp
-  rw [this, List.drop_left' (by simp)]
-
-theorem readString_tlString (k rest : Bytes) (hk : k.length < 16777216) :
-    readString (tlString k ++ rest) = .ok (k, rest) := by
-  unfold tlString
-  by_cases h1 : k.length ≤ 253
-  · simp only [h1, if_true, List.cons_append, List.append_assoc]
-    unfold readString
-    have : (UInt8.ofNat k.length).toNat = k.length := by simp [UInt8.toNat_ofNat']; omega
-    simp only [this, h1, if_true]
-    exact readStringTail_ok k rest (k.length + 1)
-  · have h2 : k.length ≤ 16777215 := by omega
-    simp only [h1, h2, if_false, if_true, List.cons_append, List.append_assoc]
-    unfold readString
-    have e254 : (254 : UInt8).toNat = 254 := rfl
-    simp only [e254, show ¬ (254 ≤ 253) by omega, if_false, if_true]
-    unfold readLongString
-    have h3l : (le 3 k.length).length = 3 := le_length _ _
-    have hl : ¬ (((254 : UInt8) :: (le 3 k.length ++ (k ++ (List.replicate (paddingLen k.length) 0 ++ rest)))).length < 1 + 3) := by
-      simp [h3l]
-    have hu : unle ((((254 : UInt8) :: (le 3 k.length ++ (k ++ (List.replicate (paddingLen k.length) 0 ++ rest)))).drop 1).take 3) = k.length := by
-      simp only [List.drop_succ_cons, List.drop_zero]
-      rw [List.take_left' h3l, unle_le 3 _ (by omega)]
-    simp only [hl, if_false, hu, h1]
-    have hd : ((254 : UInt8) :: (le 3 k.length ++ (k ++ (List.replicate (paddingLen k.length) 0 ++ rest)))).drop (1 + 3)
-        = k ++ (List.replicate (paddingLen k.length) 0 ++ rest) := by
-      rw [show 1 + 3 = 3 + 1 by rfl, List.drop_succ_cons, List.drop_left' h3l]
-    rw [hd]
-    exact readStringTail_ok k rest k.length
-
-/-- decode ∘ encode = id for one element -/
-theorem readItem_encItem (it : Bytes × Entry) (rest : Bytes) (h : WFItem it) :
-    readItem (encItem it ++ rest) = .ok (it, rest) := by
-  obtain ⟨k, e⟩ := it
-  unfold readItem encItem
-  simp only [List.append_assoc]
-  rw [readString_tlString k _ h.klen]
-  simp only
-  rw [readU32_le4 _ _ (by unfold u32OfInt; have := h.vlo; have := h.vhi; omega)]
-  simp only
-  rw [readU32_le4 _ _ h.ts32]
-  simp only [int_u32_roundtrip e.val h.vlo h.vhi]
-
-
-/-! ## load = decode the chunks the reader returns -/
-
-/-- the body of one chunk: the encodings of a group of elements -/
-def encGroup (g : Cache) : Bytes := (g.map encItem).flatten
-
-theorem loadItems_nil (s : St) : loadItems s [] = (s, none) := by
-  rw [loadItems]; simp
-
-theorem loadItems_ok {s : St} {body rest : Bytes} {it : Bytes × Entry} (hne : body.isEmpty = false)
-    (h : readItem body = .ok (it, rest)) : loadItems s body = loadItems (loadInsert s it) rest := by
-  rw [loadItems]
-  simp only [hne, Bool.false_eq_true, if_false]
-  split
-  · rename_i h'; rw [h] at h'; cases h'
-  · rename_i h'; rw [h] at h'; cases h'; rfl
-
-theorem encItem_ne_nil (it : Bytes × Entry) : (encItem it).isEmpty = false := by
-  have : (encItem it).length ≥ 8 := by simp [encItem, le_length]
-  cases h : encItem it with
-  | nil => rw [h] at this; simp at this
-  | cons a l => rfl
-
-theorem loadItems_encGroup (s : St) (g : Cache) (hwf : ∀ it ∈ g, WFItem it) :
-    loadItems s (encGroup g) = (g.foldl loadInsert s, none) := by
-  induction g generalizing s with
-  | nil => simp [encGroup, loadItems_nil]
-  | cons it g ih =>
-    have e : encGroup (it :: g) = encItem it ++ encGroup g := by simp [encGroup]
-    have hne : (encGroup (it :: g)).isEmpty = false := by
-      rw [e]
-      have := encItem_ne_nil it
-      cases h : encItem it with
-      | nil => rw [h] at this; simp at this
-      | cons a l => rfl
-    rw [loadItems_ok hne (by rw [e]; exact readItem_encItem it _ (hwf it (by simp)))]
-    rw [ih _ (fun x hx => hwf x (List.mem_cons_of_mem _ hx))]
-    rfl
-
-/-- `load` as a function of what the chunk reader returns -/
-def loadChunks (s : St) : List Bytes → Option Err → St × Option LoadErr
-  | [], e => (s, e.map .chunk)
-  | c :: cs, e =>
-    if c.isEmpty then (s, none)
-    else if (loadItems s c).2.isSome then loadItems s c
-    else loadChunks (loadItems s c).1 cs e
-
-theorem readAll_eof {H : Bytes → Bytes} {magic : Nat} {prev rest : Bytes}
-    (h : readNext H magic prev rest = .eof) : readAll H magic prev rest = ([], none) := by
-  rw [readNext_eof h]; exact readAll_nil H magic prev
-
-/-- the loader sees the file only through the chunk reader: every statement about `readAll` (round trip, truncation,
-    corruption) transfers to `load` -/
-theorem loadRest_eq_loadChunks (H : Bytes → Bytes) (s : St) (prev rest : Bytes) :
-    loadRest H s prev rest
-      = loadChunks s (readAll H magicMappings prev rest).1 (readAll H magicMappings prev rest).2 := by
-  fun_induction loadRest H s prev rest with
-  | case1 s prev rest hr => rw [readAll_eof hr]; rfl
-  | case2 s prev rest e hr => rw [readAll_err hr]; rfl
-  | case3 s prev rest body stored rest' hr hb => rw [readAll_chunk hr]; simp [loadChunks, hb]
-  | case4 s prev rest body stored rest' hr hb r hsome =>
-    rw [readAll_chunk hr]
-    have hb' : body.isEmpty = false := by simpa using hb
-    simp only [loadChunks, hb', Bool.false_eq_true, if_false]
-    simp only [r] at hsome
-    simp [hsome, r]
-  | case5 s prev rest body stored rest' hr hb r hnone ih =>
-    rw [readAll_chunk hr]
-    have hb' : body.isEmpty = false := by simpa using hb
-    simp only [loadChunks, hb', Bool.false_eq_true, if_false]
-    have hn : (loadItems s body).2.isSome = false := by simpa [r] using hnone
-    simp only [hn, Bool.false_eq_true, if_false]
-    exact ih
-
-theorem encGroup_ne_nil {g : Cache} (h : g ≠ []) : (encGroup g).isEmpty = false := by
-  cases g with
-  | nil => exact absurd rfl h
-  | cons it g =>
-    have e : encGroup (it :: g) = encItem it ++ encGroup g := by simp [encGroup]
-    rw [e]
-    have := encItem_ne_nil it
-    cases h : encItem it with
-    | nil => rw [h] at this; simp at this
-    | cons a l => rfl
-
-theorem loadChunks_groups (s : St) (gs : List Cache) (hne : ∀ g ∈ gs, g ≠ []) (hwf : ∀ g ∈ gs, ∀ it ∈ g, WFItem it)
-    (e : Option Err) : loadChunks s (gs.map encGroup) e = (gs.flatten.foldl loadInsert s, e.map .chunk) := by
-  induction gs generalizing s with
-  | nil => rfl
-  | cons g gs ih =>
-    simp only [List.map_cons, loadChunks, encGroup_ne_nil (hne g (by simp)), Bool.false_eq_true, if_false]
-    rw [loadItems_encGroup s g (hwf g (by simp))]
-    simp only [Option.isSome_none, Bool.false_eq_true, if_false]
-    rw [ih _ (fun x hx => hne x (List.mem_cons_of_mem _ hx)) (fun x hx => hwf x (List.mem_cons_of_mem _ hx))]
-    simp [List.foldl_append]
-
-/-! ## reload -/
-
-theorem mappings_params {H : Bytes → Bytes} (hH : ∀ x, (H x).length = 16) : Params H magicMappings :=
-  ⟨hH, by decide⟩
-
-/-- a saved file: the chunk bodies are the encodings of non-empty groups of well-formed elements -/
-structure SavedAs (H : Bytes → Bytes) (file : Bytes) (gs : List Cache) : Prop where
-  hlen : ∀ x, (H x).length = 16
-  file_eq : file = encodeAll H magicMappings zeroHash (gs.map encGroup)
-  nonempty : ∀ g ∈ gs, g ≠ []
-  wf : ∀ g ∈ gs, ∀ it ∈ g, WFItem it
-  small : ∀ g ∈ gs, (encGroup g).length ≤ chunkSize
-
-/-- the state `LoadMappingsCacheSlice` starts from -/
-def fresh (file : Bytes) (m : Int) : St := { maxSize := m, store := Chunked.new file }
-
-theorem loadNew_eq (H : Bytes → Bytes) (file : Bytes) (m : Int) :
-    loadNew H file m = loadChunks (fresh file m) (readAll H magicMappings zeroHash file).1 (readAll H magicMappings zeroHash file).2 :=
-  loadRest_eq_loadChunks H _ _ _
-
-/-- C21 (reload after truncation): a saved mapping file cut at ANY offset loads exactly the elements of its first k
-    chunks — whole elements only, nothing damaged, nothing invented. -/
-theorem load_truncated {H : Bytes → Bytes} {file : Bytes} {gs : List Cache} (hs : SavedAs H file gs) (n : Nat) (m : Int) :
-    ∃ k, k ≤ gs.length ∧
-      (loadNew H (file.take n) m).1 = (gs.take k).flatten.foldl loadInsert (fresh (file.take n) m) ∧
-      ((loadNew H (file.take n) m).2 = none → file.take n = encodeAll H magicMappings zeroHash ((gs.take k).map encGroup)) := by
-  have P := mappings_params hs.hlen
-  have hb : ∀ b ∈ gs.map encGroup, b.length ≤ chunkSize := by
-    intro b hb; obtain ⟨g, hg, rfl⟩ := List.mem_map.mp hb; exact hs.small g hg
-  obtain ⟨k, hk, h1, h2⟩ := truncated_gives_prefix P (gs.map encGroup) hb zeroHash n
-  rw [← hs.file_eq] at h1 h2
-  rw [← List.map_take] at h1 h2
-  refine ⟨k, by simpa using hk, ?_, ?_⟩
-  · rw [loadNew_eq, h1]
-    rw [loadChunks_groups _ _ (fun g hg => hs.nonempty g (List.mem_of_mem_take hg)) (fun g hg => hs.wf g (List.mem_of_mem_take hg))]
-  · rw [loadNew_eq, h1]
-    rw [loadChunks_groups _ _ (fun g hg => hs.nonempty g (List.mem_of_mem_take hg)) (fun g hg => hs.wf g (List.mem_of_mem_take hg))]
-    intro he
-    apply h2
-    cases hr : (readAll H magicMappings zeroHash (List.take n file)).2 with
-    | none => rfl
-    | some e => rw [hr] at he; simp at he
-
-theorem good_loadInsert {Q : Bytes → Int → Prop} {s : St} (it : Bytes × Entry) (h : AllGood Q s) (hq : Q it.1 it.2.val) :
-    AllGood Q (loadInsert s it) := by
-  unfold loadInsert
-  split
-  · exact h
-  · intro p hp
-    rcases mem_put hp with hp | hp
-    · subst hp; exact hq
-    · exact h p hp
-
-theorem good_foldl_loadInsert {Q : Bytes → Int → Prop} (items : Cache) (s : St) (h : AllGood Q s)
-    (hq : ∀ it ∈ items, Q it.1 it.2.val) : AllGood Q (items.foldl loadInsert s) := by
-  induction items generalizing s with
-  | nil => exact h
-  | cons it items ih =>
-    exact ih _ (good_loadInsert it h (hq it (by simp))) (fun x hx => hq x (List.mem_cons_of_mem _ hx))
-
-/-- discharges `ReloadsGood` for every truncation of a saved file whose elements satisfy `Q` -/
-theorem reload_truncated_good {Q : Bytes → Int → Prop} {H : Bytes → Bytes} {file : Bytes} {gs : List Cache}
-    (hs : SavedAs H file gs) (hq : ∀ g ∈ gs, ∀ it ∈ g, Q it.1 it.2.val) (n : Nat) (m : Int) :
-    AllGood Q (loadNew H (file.take n) m).1 := by
-  obtain ⟨k, _, h1, _⟩ := load_truncated hs n m
-  rw [h1]
-  apply good_foldl_loadInsert
-  · intro p hp; simp [fresh] at hp
-  · intro it hit
-    obtain ⟨g, hg, hig⟩ := List.mem_flatten.mp hit
-    exact hq g (List.mem_of_mem_take hg) it hig
-
-theorem put_absent_eq {c : Cache} {k : Bytes} (e : Entry) (h : find c k = none) : put c k e = c ++ [(k, e)] := by
-  induction c with
-  | nil => rfl
-  | cons q c ih =>
-    obtain ⟨k', e'⟩ := q
-    by_cases hk : k' = k
-    · simp [find, hk] at h
-    · simp only [find, hk, if_false] at h
-      simp [put, hk, ih h]
-
-theorem foldl_loadInsert_nodup (items : Cache) (s : St) (hn : (keys s.cache ++ keys items).Nodup) :
-    (items.foldl loadInsert s).cache = s.cache ++ items := by
-  induction items generalizing s with
-  | nil => simp
-  | cons it items ih =>
-    have hk : find s.cache it.1 = none := by
-      apply find_none_iff.mpr
-      intro hmem
-      have := List.nodup_append.mp hn
-      exact this.2.2 _ hmem _ (by simp [keys]) rfl
-    have hp : present s it.1 = false := present_false_iff.mpr hk
-    have e1 : (loadInsert s it).cache = s.cache ++ [it] := by
-      simp only [loadInsert, hp, Bool.false_eq_true, if_false]
-      exact put_absent_eq it.2 hk
-    simp only [List.foldl_cons]
-    rw [ih (loadInsert s it) (by rw [e1]; simpa [keys, List.append_assoc] using hn), e1]
-    simp
-
-theorem totals_perm {a b : Cache} (h : a.Perm b) : totalSize a = totalSize b ∧ totalTS a = totalTS b := by
-  induction h with
-  | nil => exact ⟨rfl, rfl⟩
-  | cons x _ ih => simp only [totalSize, totalTS, List.map_cons, List.sum_cons] at ih ⊢; constructor <;> omega
-  | swap x y l => simp only [totalSize, totalTS, List.map_cons, List.sum_cons]; constructor <;> omega
-  | trans _ _ ih1 ih2 => exact ⟨ih1.1.trans ih2.1, ih1.2.trans ih2.2⟩
-
-/-- C21 (reload, same contents): if the file holds the elements of the cache in some order (`order` is a permutation of
-    the map — Go map order or the deterministic order), split into chunks in any way, then a restart loads a cache with
-    exactly the same string → (value, access time) mapping and the same `sumSize` / `sumTS`. -/
-theorem reload_same_contents {H : Bytes → Bytes} {file : Bytes} {gs : List Cache} (s : St) (hex : Exact s)
-    (hs : SavedAs H file gs) (hperm : gs.flatten.Perm s.cache) (m : Int) :
-    (loadNew H file m).2 = none ∧
-    (∀ k, find (loadNew H file m).1.cache k = find s.cache k) ∧
-    (loadNew H file m).1.sumSize = s.sumSize ∧ (loadNew H file m).1.sumTS = s.sumTS := by
-  have P := mappings_params hs.hlen
-  have hb : ∀ b ∈ gs.map encGroup, b.length ≤ chunkSize := by
-    intro b hb; obtain ⟨g, hg, rfl⟩ := List.mem_map.mp hb; exact hs.small g hg
-  have hrt := read_write_roundtrip P (gs.map encGroup) hb
-  rw [← hs.file_eq] at hrt
-  have hload : loadNew H file m = (gs.flatten.foldl loadInsert (fresh file m), none) := by
-    rw [loadNew_eq, hrt, loadChunks_groups _ _ hs.nonempty hs.wf]; rfl
-  have hnd : (keys gs.flatten).Nodup := by
-    have : (keys gs.flatten).Perm (keys s.cache) := List.Perm.map _ hperm
-    exact this.nodup_iff.mpr hex.nodup
-  have hcache : (gs.flatten.foldl loadInsert (fresh file m)).cache = gs.flatten := by
-    rw [foldl_loadInsert_nodup _ _ (by simpa [fresh, keys] using hnd)]; simp [fresh]
-  have hex' : Exact (gs.flatten.foldl loadInsert (fresh file m)) := by
-    have : Exact (loadNew H file m).1 := exact_loadNew H file m
-    rw [hload] at this; exact this
-  have htot := totals_perm hperm
-  rw [hload]
-  refine ⟨rfl, ?_, ?_, ?_⟩
-  · intro k
-    simp only [hcache]
-    cases hf : find s.cache k with
-    | none =>
-      apply find_none_iff.mpr
-      intro hmem
-      have : k ∈ keys s.cache := (List.Perm.map _ hperm).mem_iff.mp hmem
-      exact (find_none_iff.mp hf) this
-    | some e =>
-      exact mem_find_of_nodup hnd (hperm.mem_iff.mpr (find_some_mem hf))
-  · show (gs.flatten.foldl loadInsert (fresh file m)).sumSize = s.sumSize
-    rw [hex'.size, hcache, htot.1, hex.size]
-  · show (gs.flatten.foldl loadInsert (fresh file m)).sumTS = s.sumTS
-    rw [hex'.ts, hcache, htot.2, hex.ts]
-
-/-! ## Save writes an encoding -/
-
-theorem encodeAll_snoc (H : Bytes → Bytes) (m : Nat) (prev : Bytes) (xs : List Bytes) (b : Bytes) :
-    encodeAll H m prev (xs ++ [b]) = encodeAll H m prev xs ++ encChunk H m (chain H m prev xs) b ∧
-    chain H m prev (xs ++ [b]) = H (hashInput m (chain H m prev xs) b) := by
-  induction xs generalizing prev with
-  | nil => simp [encodeAll, chain]
-  | cons x xs ih =>
-    have := ih (H (hashInput m prev x))
-    simp only [List.cons_append, encodeAll, chain, this.1, this.2, List.append_assoc]
-    exact ⟨trivial, trivial⟩
-
-theorem writeAt_take (f a d : Bytes) (off : Nat) (h1 : f.take off = a) (h2 : a.length = off) :
-    (writeAt f off d).take (off + d.length) = a ++ d := by
-  have hle : off ≤ f.length := by
-    have := congrArg List.length h1
-    rw [List.length_take, h2] at this; omega
-  unfold writeAt
-  have : off - f.length = 0 := by omega
-  simp only [this, List.replicate_zero, List.append_nil, h1]
-  rw [← List.append_assoc]
-  exact List.take_left' (by simp [h2])
-
-/-- the writer is between two elements: `done` groups are on disk (a well-formed file prefix), `cur` is pending -/
-structure WInv (H : Bytes → Bytes) (done : List Cache) (cur : Cache) (st : Chunked.St) : Prop where
-  magic : st.magic = magicMappings
-  noErr : st.writeErr = false
-  off : st.offset = (encodeAll H magicMappings zeroHash (done.map encGroup)).length
-  file : st.file.take st.offset = encodeAll H magicMappings zeroHash (done.map encGroup)
-  hash : st.hash = chain H magicMappings zeroHash (done.map encGroup)
-  pending : st.pending = encGroup cur
-  doneOK : ∀ g ∈ done, g ≠ [] ∧ (encGroup g).length ≤ chunkSize
-
-theorem winv_flush {H : Bytes → Bytes} (hH : ∀ x, (H x).length = 16) {done : List Cache} {cur : Cache} {st : Chunked.St}
-    (h : WInv H done cur st) (hne : cur ≠ []) (hsz : (encGroup cur).length ≤ chunkSize) :
-    WInv H (done ++ [cur]) [] (finishChunk H false st).1 := by
-  have hp : st.pending.isEmpty = false := by rw [h.pending]; exact encGroup_ne_nil hne
-  have hsn := encodeAll_snoc H magicMappings zeroHash (done.map encGroup) (encGroup cur)
-  have hst : (finishChunk H false st).1 =
-      { st with file := writeAt st.file st.offset (encChunk H st.magic st.hash st.pending),
-                hash := H (hashInput st.magic st.hash st.pending),
-                offset := st.offset + (headerSize + st.pending.length + hashSize), pending := [] } := by
-    unfold finishChunk
-    simp [hp, h.noErr]
-  rw [hst]
-  have hcl := encChunk_length H st.magic st.hash st.pending hH
-  have key : encChunk H st.magic st.hash st.pending
-      = encChunk H magicMappings (chain H magicMappings zeroHash (done.map encGroup)) (encGroup cur) := by
-    rw [h.magic, h.hash, h.pending]
-  refine ⟨h.magic, h.noErr, ?_, ?_, ?_, by simp [encGroup], ?_⟩
-  · simp only [List.map_append, List.map_cons, List.map_nil]
-    rw [hsn.1, List.length_append, ← h.off, ← key, hcl, headerSize_val, hashSize_val]
-  · simp only [List.map_append, List.map_cons, List.map_nil]
-    rw [hsn.1, ← key]
-    have := writeAt_take st.file _ (encChunk H st.magic st.hash st.pending) st.offset h.file h.off.symm
-    rw [hcl] at this
-    rw [headerSize_val, hashSize_val]; exact this
-  · simp only [List.map_append, List.map_cons, List.map_nil]
-    rw [hsn.2, h.magic, h.hash, h.pending]
-  · intro g hg
-    rcases List.mem_append.mp hg with hg | hg
-    · exact h.doneOK g hg
-    · simp at hg; subst hg; exact ⟨hne, hsz⟩
-
-theorem halfChunk_val : halfChunk = 524288 := rfl
-
-theorem winv_item {H : Bytes → Bytes} (hH : ∀ x, (H x).length = 16) {done : List Cache} {cur : Cache} {st : Chunked.St}
-    (h : WInv H done cur st) (hb : (encGroup cur).length < halfChunk) (it : Bytes × Entry)
-    (hit : (encItem it).length ≤ halfChunk) :
-    ∃ done' cur', WInv H done' cur' (finishItem H false (encItem it) st).1 ∧ (encGroup cur').length < halfChunk ∧
-      done'.flatten ++ cur' = done.flatten ++ cur ++ [it] := by
-  have eg : encGroup (cur ++ [it]) = encGroup cur ++ encItem it := by simp [encGroup]
-  have h1 : WInv H done (cur ++ [it]) { st with pending := st.pending ++ encItem it } :=
-    ⟨h.magic, h.noErr, h.off, h.file, h.hash, by simp only; rw [h.pending, eg], h.doneOK⟩
-  unfold finishItem
-  simp only
-  by_cases hbel : belowHalf { st with pending := st.pending ++ encItem it } = true
-  · simp only [hbel, if_true]
-    refine ⟨done, cur ++ [it], h1, ?_, by simp⟩
-    simp only [belowHalf, decide_eq_true_eq] at hbel
-    rw [eg, ← h.pending]; simpa using hbel
-  · simp only [hbel, Bool.false_eq_true, if_false]
-    have hlen : (encGroup (cur ++ [it])).length ≤ chunkSize := by
-      rw [eg, List.length_append, chunkSize_val]; rw [halfChunk_val] at hb hit; omega
-    have hof : overFull { st with pending := st.pending ++ encItem it } = false := by
-      simp only [overFull, decide_eq_false_iff_not, Nat.not_lt]
-      rw [h.pending, ← eg]; simpa using hlen
-    simp only [hof, Bool.false_eq_true, if_false]
-    refine ⟨done ++ [cur ++ [it]], [], winv_flush hH h1 (by simp) hlen, by simp [encGroup, halfChunk_val], by simp⟩
-
-theorem winv_items {H : Bytes → Bytes} (hH : ∀ x, (H x).length = 16) (items : Cache) {done : List Cache} {cur : Cache}
-    {st : Chunked.St} (h : WInv H done cur st) (hb : (encGroup cur).length < halfChunk)
-    (hit : ∀ it ∈ items, (encItem it).length ≤ halfChunk) :
-    ∃ done' cur', WInv H done' cur' (writeItems H st items) ∧ (encGroup cur').length < halfChunk ∧
-      done'.flatten ++ cur' = done.flatten ++ cur ++ items := by
-  induction items generalizing done cur st with
-  | nil => exact ⟨done, cur, h, hb, by simp⟩
-  | cons it items ih =>
-    obtain ⟨d1, c1, h1, hb1, he1⟩ := winv_item hH h hb it (hit it (by simp))
-    obtain ⟨d2, c2, h2, hb2, he2⟩ := ih h1 hb1 (fun x hx => hit x (List.mem_cons_of_mem _ hx))
-    exact ⟨d2, c2, h2, hb2, by rw [he2, he1]; simp⟩
-
-theorem winv_finish {H : Bytes → Bytes} (hH : ∀ x, (H x).length = 16) {done : List Cache} {cur : Cache} {st : Chunked.St}
-    (h : WInv H done cur st) (hb : (encGroup cur).length < halfChunk) :
-    ∃ gs : List Cache, gs.flatten = done.flatten ++ cur ∧
-      (finishWrite H false st).1.file = encodeAll H magicMappings zeroHash (gs.map encGroup) ∧
-      ∀ g ∈ gs, g ≠ [] ∧ (encGroup g).length ≤ chunkSize := by
-  by_cases hc : cur = []
-  · subst hc
-    have hp : st.pending.isEmpty = true := by rw [h.pending]; rfl
-    refine ⟨done, by simp, ?_, h.doneOK⟩
-    unfold finishWrite finishChunk
-    simp [hp, h.file]
-  · have hsz : (encGroup cur).length ≤ chunkSize := by rw [chunkSize_val]; rw [halfChunk_val] at hb; omega
-    have hf := winv_flush hH h hc hsz
-    have hp : st.pending.isEmpty = false := by rw [h.pending]; exact encGroup_ne_nil hc
-    refine ⟨done ++ [cur], by simp, ?_, hf.doneOK⟩
-    have he : (finishChunk H false st).2 = .none := by
-      unfold finishChunk; simp [hp, h.noErr]
-    unfold finishWrite
-    simp only [he]
-    exact hf.file
-
-/-- C21 (Save): what `Save` leaves in the file is a well-formed chunk file whose chunk bodies are the encodings of the
-    elements of `order`, in that order, split into non-empty groups each smaller than the chunk limit (the split is
-    where FinishItem saw half a chunk filled). -/
-theorem save_writes_encoding {H : Bytes → Bytes} (hH : ∀ x, (H x).length = 16) (s : St) (order : Cache)
-    (hd : dirty s = true) (hwf : ∀ it ∈ order, WFItem it) (hit : ∀ it ∈ order, (encItem it).length ≤ halfChunk) :
-    ∃ gs : List Cache, gs.flatten = order ∧ SavedAs H (save H s order).1.store.file gs := by
-  have h0 : WInv H [] [] (startWrite magicMappings (resetToStart s.store)) :=
-    ⟨rfl, rfl, by simp [startWrite, resetToStart, encodeAll], by simp [startWrite, resetToStart, encodeAll],
-      by simp [startWrite, resetToStart, chain], by simp [startWrite, encGroup], by simp⟩
-  obtain ⟨d1, c1, h1, hb1, he1⟩ := winv_items hH order h0 (by simp [encGroup, halfChunk_val]) hit
-  obtain ⟨gs, hg1, hg2, hg3⟩ := winv_finish hH h1 hb1
-  refine ⟨gs, by rw [hg1, he1]; simp, hH, ?_, fun g hg => (hg3 g hg).1, ?_, fun g hg => (hg3 g hg).2⟩
-  · unfold save; simp only [hd, Bool.not_true, Bool.false_eq_true, if_false]; exact hg2
-  · intro g hg it hi
-    apply hwf
-    have : it ∈ gs.flatten := List.mem_flatten.mpr ⟨g, hg, hi⟩
-    rw [hg1, he1] at this; simpa using this
-
-/-- C21 (save, then restart): the headline — save a cache with exact accounting in ANY write order that enumerates
-    the map, restart from the file: no load error, the same mapping, the same sums. -/
-theorem save_then_reload_same {H : Bytes → Bytes} (hH : ∀ x, (H x).length = 16) (s : St) (order : Cache) (m : Int)
+    readAll H magic zeroHash (encodeAll H magic zeroHash bodies) = (bodies, none) :=
+  read_write_roundtrip P bodies hb
+
+/-- chunk files: ANY bytes no longer than the saved file (cut anywhere, any bytes changed) read as a prefix of the saved
+    chunks unless those very bytes pass the hash check on something that is not the saved chunk -/
+theorem chunk_damage {H : Bytes → Bytes} {magic : Nat} (P : Params H magic) (bodies : List Bytes)
+    (hb : ∀ x ∈ bodies, x.length ≤ chunkSize) (b : Bytes) (hl : b.length ≤ (encodeAll H magic zeroHash bodies).length) :
+    (∃ k, k ≤ bodies.length ∧ (readAll H magic zeroHash b).1 = bodies.take k) ∨ PassesFrom H magic zeroHash bodies b :=
+  damaged_prefix_or_passes P bodies hb zeroHash b hl
+
+/-- chunk files: a cut never passes -/
+theorem chunk_cut {H : Bytes → Bytes} {magic : Nat} (P : Params H magic) (bodies : List Bytes)
+    (hb : ∀ x ∈ bodies, x.length ≤ chunkSize) (n : Nat) :
+    ¬ PassesFrom H magic zeroHash bodies ((encodeAll H magic zeroHash bodies).take n) :=
+  truncation_never_passes P bodies hb zeroHash n
+
+/-- the cache, closed: any legal history, restarts from arbitrarily damaged (not longer) files -/
+theorem cache_closed {H : Bytes → Bytes} (hH : ∀ x, (H x).length = 16) (m t : Int) (ops : List Op)
+    (hl : Legal H (init m t) [] ops) :
+    GInv H (added ops) (run H .fixed (init m t) ops) (runImg H (init m t) [] ops) :=
+  closed_run hH m t ops hl
+
+/-- the cache, closed, cuts only: no hypothesis about the hash function -/
+theorem cache_closed_cuts {H : Bytes → Bytes} (hH : ∀ x, (H x).length = 16) (m t : Int) (ops : List Op)
+    (hl : TruncLegal H (init m t) ops) :
+    GInv H (added ops) (run H .fixed (init m t) ops) (runImg H (init m t) [] ops) :=
+  closed_run_truncations hH m t ops hl
+
+/-- GetValue on any legal history -/
+theorem cache_get {H : Bytes → Bytes} (hH : ∀ x, (H x).length = 16) (m t : Int) (ops : List Op)
+    (hl : Legal H (init m t) [] ops) (ts : Nat) (k : Bytes) (x : Int)
+    (hg : (getValue (run H .fixed (init m t) ops) ts k).2 = some x) :
+    k ≠ [] ∧ x ≠ 0 ∧ x ≠ markerFlood ∧ x ≠ markerNotExist ∧ (k, x) ∈ added ops :=
+  closed_get hH m t ops hl ts k x hg
+
+/-- save, restart: same mapping, same sums -/
+theorem cache_save_restart {H : Bytes → Bytes} (hH : ∀ x, (H x).length = 16) (s : St) (order : Cache) (m : Int)
     (hex : Exact s) (hd : dirty s = true) (hperm : order.Perm s.cache)
     (hwf : ∀ it ∈ s.cache, WFItem it) (hit : ∀ it ∈ s.cache, (encItem it).length ≤ halfChunk) :
     (loadNew H (save H s order).1.store.file m).2 = none ∧
     (∀ k, find (loadNew H (save H s order).1.store.file m).1.cache k = find s.cache k) ∧
     (loadNew H (save H s order).1.store.file m).1.sumSize = s.sumSize ∧
-    (loadNew H (save H s order).1.store.file m).1.sumTS = s.sumTS := by
-  obtain ⟨gs, hg, hs⟩ := save_writes_encoding hH s order hd
-    (fun it hi => hwf it (hperm.mem_iff.mp hi)) (fun it hi => hit it (hperm.mem_iff.mp hi))
-  exact reload_same_contents s hex hs (by rw [hg]; exact hperm) m
+    (loadNew H (save H s order).1.store.file m).1.sumTS = s.sumTS :=
+  save_then_reload_same hH s order m hex hd hperm hwf hit
 
-/-- C21 (save, then restart from a truncated file): only entries that were in the cache at save time, whole. -/
-theorem save_then_truncated_reload_subset {H : Bytes → Bytes} (hH : ∀ x, (H x).length = 16) (s : St) (order : Cache) (n : Nat) (m : Int)
-    (hd : dirty s = true) (hperm : order.Perm s.cache)
-    (hwf : ∀ it ∈ s.cache, WFItem it) (hit : ∀ it ∈ s.cache, (encItem it).length ≤ halfChunk) :
-    ∀ p ∈ (loadNew H ((save H s order).1.store.file.take n) m).1.cache, p ∈ s.cache := by
-  obtain ⟨gs, hg, hs⟩ := save_writes_encoding hH s order hd
-    (fun it hi => hwf it (hperm.mem_iff.mp hi)) (fun it hi => hit it (hperm.mem_iff.mp hi))
-  obtain ⟨k, _, h1, _⟩ := load_truncated hs n m
-  rw [h1]
-  have : ∀ (items : Cache) (st : St), (∀ q ∈ st.cache, q ∈ s.cache) → (∀ q ∈ items, q ∈ s.cache) →
-      ∀ q ∈ (items.foldl loadInsert st).cache, q ∈ s.cache := by
-    intro items
-    induction items with
-    | nil => intro st h1 _; exact h1
-    | cons it items ih =>
-      intro st h1 h2
-      apply ih
-      · intro q hq
-        unfold loadInsert at hq
-        split at hq
-        · exact h1 q hq
-        · rcases mem_put hq with hq | hq
-          · subst hq; exact h2 _ (by simp)
-          · exact h1 q hq
-      · exact fun q hq => h2 q (List.mem_cons_of_mem _ hq)
-  apply this
-  · intro q hq; simp [fresh] at hq
-  · intro q hq
-    obtain ⟨g, hg', hq'⟩ := List.mem_flatten.mp hq
-    have : q ∈ gs.flatten := List.mem_flatten.mpr ⟨g, List.mem_of_mem_take hg', hq'⟩
-    rw [hg] at this; exact hperm.mem_iff.mp this
+/-- Go map order, AddValues: the driver's acceptance test is exactly "collected for some enumeration" -/
+theorem map_order_addValues (rs : Int) (ks cands : List Bytes) (hk : ks.Nodup) (hc : cands.Nodup) (hsub : ∀ k ∈ cands, k ∈ ks) :
+    legalCount rs ks cands = true ↔ ∃ order, order.Perm ks ∧ (collect rs order).Perm cands :=
+  legalCount_exact rs ks cands hk hc hsub
 
+/-- Go map order, RemoveByTTL: the driver's acceptance test is exactly "removed for some enumeration" -/
+theorem map_order_removeByTTL (s : St) (maxCount : Int) (now : Nat) (removed : List Bytes) (hn : (keys s.cache).Nodup) :
+    legalRemoved s maxCount now removed = true ↔
+      ∃ order, order.Perm (keys s.cache) ∧ ttlRemoved s maxCount now order = removed :=
+  ⟨legalRemoved_complete s maxCount now removed hn, fun ⟨order, hp, he⟩ => he ▸ legalRemoved_sound s maxCount now order hn hp⟩
 
+/-- the writer with failing WriteAt refines the list-level writer, over all op lists -/
+theorem writer_closed {H : Bytes → Bytes} (hH : ∀ x, (H x).length = 16) (magic : Nat) (ops : List WOp) (s : Chunked.St) (a : Abs)
+    (h : Refines H magic s a) (hm : ∀ m, WOp.start m ∈ ops → m = magic) :
+    Refines H magic (wrun H s ops) (arun a ops) :=
+  writer_refines hH magic ops s a h hm
 
-/-! ## the regenerated facts the models rely on -/
+/-- the size clause on every legal history -/
+theorem cache_size {H : Bytes → Bytes} (hH : ∀ x, (H x).length = 16) (m t : Int) (ops : List Op) (op : Op)
+    (hl : Legal H (init m t) [] (ops ++ [op])) (hp : op.plain) :
+    (run H .fixed (init m t) (ops ++ [op])).sumSize ≤
+        max (run H .fixed (init m t) ops).maxSize (run H .fixed (init m t) ops).sumSize ∧
+      0 ≤ (run H .fixed (init m t) (ops ++ [op])).sumSize ∧ 0 ≤ (run H .fixed (init m t) (ops ++ [op])).sumTS :=
+  closed_size hH m t ops op hl hp
 
-set_option maxRecDepth 100000 in
-/-- `elementSizeMem` of the model agrees with the compiled Go function on the sampled lengths (regenerated on every run) -/
-theorem gen_elementSizeMem_samples :
-    ∀ p ∈ SH.Gen.C21.elementSizeMemSamples, elementSize (List.replicate p.1 0) = (p.2 : Int) := by decide
+/-- the collection loop of AddValues in closed form -/
+theorem collect_closed_form (rs : Int) (order : List Bytes) :
+    collect rs order =
+      if rs ≤ 0 then order.take 1
+      else match reach rs order 0 0 with
+        | none => order
+        | some m => order.take (2 * m) :=
+  collect_eq rs order
 
-set_option maxRecDepth 100000 in
-/-- `tlString` has the length of `basictl.StringWrite` on the sampled lengths (tiny / medium boundary, padding) -/
-theorem gen_tlString_samples :
-    ∀ p ∈ SH.Gen.C21.tlStringLenSamples, (tlString (List.replicate p.1 0)).length = p.2 := by decide
+/-- the model's RemoveByTTL run over the observed list is the loop run over the visited keys -/
+theorem removeByTTL_model_exact (s : St) (maxCount : Int) (now : Nat) (order : List Bytes) (hn : order.Nodup) :
+    removeByTTL s now (order.take (ttlK maxCount)) = removeByTTL s now (ttlRemoved s maxCount now order) :=
+  removeByTTL_observed s maxCount now order hn
 
-/-! ## witnesses and non-vacuity -/
+/-- `writeErr` discards until reset -/
+theorem writer_error_sticky (a : Abs) (ops : List WOp) (he : a.err = true) (hr : ∀ op ∈ ops, op ≠ .reset) :
+    (arun a ops).done = a.done ∧ (arun a ops).err = true :=
+  arun_err_keeps_done a ops he hr
 
-/-- a toy 16-byte "hash": the first 16 bytes of the input, zero padded (the theorems hold for every H) -/
-def toyH (x : Bytes) : Bytes := (x ++ zeroHash).take 16
+/-- an error-free FinishWriteChunk leaves exactly the encoding of the accepted chunks -/
+theorem writer_fin_ok {H : Bytes → Bytes} (hH : ∀ x, (H x).length = 16) {magic : Nat} {s : Chunked.St} {a : Abs} (f : Bool)
+    (h : Refines H magic s a) (hok : (finishWrite H f s).2 = .none) :
+    (finishWrite H f s).1.file = encodeAll H magic zeroHash (astep a (.fin f)).done :=
+  fin_ok_whole_file hH f h hok
 
-theorem toy_params : Params toyH 7 :=
-  ⟨by intro x; simp [toyH, zeroHash, hashSize_val], by decide⟩
+/-- a reader of the file sees every accepted chunk first, whatever failed afterwards -/
+theorem writer_readable {H : Bytes → Bytes} {magic : Nat} (P : Params H magic) {s : Chunked.St} {a : Abs}
+    (h : Refines H magic s a) (hsz : ∀ b ∈ a.done, b.length ≤ chunkSize) :
+    ∃ more, (readAll H magic zeroHash s.file).1 = a.done ++ more :=
+  reader_sees_accepted_chunks P h hsz
 
-example : readAll toyH 7 zeroHash (encodeAll toyH 7 zeroHash [[1, 2], [3]]) = ([[1, 2], [3]], none) :=
-  read_write_roundtrip toy_params _ (by decide)
-
-example : (encodeAll toyH 7 zeroHash [[1, 2], [3]]).length = 51 := by decide
-
-/-- The pinned code (`Variant.dupAdd`): AddValues(10, [{"a",1},{"a",2}]) on an empty cache with room for both.
-    One element, but sumSize = 66 = 2·elementSizeMem("a") and sumTS = 20 = 2·10. Replayed on the real code by the
-    harness (sig=cache-accounting). -/
-def dupWitness : St := addValues .dupAdd (init 1000 0) 10 [([97], 1), ([97], 2)] []
-
-example : dupWitness.cache.length = 1 ∧ dupWitness.sumSize = 66 ∧ totalSize dupWitness.cache = 33 ∧
-    dupWitness.sumTS = 20 ∧ totalTS dupWitness.cache = 10 := by decide
-
-theorem dupAdd_breaks_accounting : ¬ Exact dupWitness := by
-  intro h
-  have := h.size
-  revert this
-  decide
-
-/-- the fixed code on the same input (first value wins, sums exact) -/
-example : (addValues .fixed (init 1000 0) 10 [([97], 1), ([97], 2)] []).cache = [([97], { val := 1, ts := 10 })] ∧
-    (addValues .fixed (init 1000 0) 10 [([97], 1), ([97], 2)] []).sumSize = 33 := by decide
-
-/-- eviction reached and the bound of `addValues_size_bound` tight: two 33-byte elements in a 66-byte cache, a third
-    one arrives later, the older one goes -/
-example : (run toyH .fixed (init 66 0) [.add 10 [([97], 1)] [], .add 11 [([98], 2)] [], .add 20 [([99], 3)] [[97], [98]]]).sumSize = 66 ∧
-    (keys (run toyH .fixed (init 66 0) [.add 10 [([97], 1)] [], .add 11 [([98], 2)] [], .add 20 [([99], 3)] [[97], [98]]]).cache) = [[98], [99]] := by
-  decide
-
-/-- markers and empty strings are filtered -/
-example : (addValues .fixed (init 1000 0) 10 [([97], 0), ([98], -1), ([99], -2), ([], 5), ([100], 7)] []).cache
-    = [([100], { val := 7, ts := 10 })] := by decide
-
-
-/-- discharges `ReloadsGood` for a restart from the file just saved, cut at any offset -/
-theorem restart_after_save_good {Q : Bytes → Int → Prop} {H : Bytes → Bytes} (hH : ∀ x, (H x).length = 16) (s : St)
-    (order : Cache) (n : Nat) (m : Int) (hq : AllGood Q s) (hd : dirty s = true) (hperm : order.Perm s.cache)
-    (hwf : ∀ it ∈ s.cache, WFItem it) (hit : ∀ it ∈ s.cache, (encItem it).length ≤ halfChunk) :
-    AllGood Q (loadNew H ((save H s order).1.store.file.take n) m).1 :=
-  fun p hp => hq p (save_then_truncated_reload_subset hH s order n m hd hperm hwf hit p hp)
-
-/-- a concrete cache for the hypotheses of the save / restart theorems -/
-def twoState : St := addValues .fixed (init 1000 0) 10 [([97], 1), ([98, 99], -7)] []
-
-theorem twoState_cache : twoState.cache = [([97], { val := 1, ts := 10 }), ([98, 99], { val := -7, ts := 10 })] := by decide
-
-theorem twoState_wf : ∀ it ∈ twoState.cache, WFItem it := by
-  intro it hi
-  rw [twoState_cache] at hi
-  simp only [List.mem_cons, List.not_mem_nil, or_false] at hi
-  rcases hi with rfl | rfl <;> exact ⟨by decide, by decide, by decide, by decide⟩
-
-theorem twoState_small : ∀ it ∈ twoState.cache, (encItem it).length ≤ halfChunk := by
-  intro it hi
-  rw [twoState_cache] at hi
-  simp only [List.mem_cons, List.not_mem_nil, or_false] at hi
-  rcases hi with rfl | rfl <;> decide
-
-/-- non-vacuity of `save_then_reload_same`: all hypotheses hold for a concrete dirty two-element cache and the toy hash -/
-example : (∀ k, find (loadNew toyH (save toyH twoState twoState.cache).1.store.file 1000).1.cache k = find twoState.cache k) :=
-  (save_then_reload_same toy_params.hlen twoState twoState.cache 1000
-    (exact_addValues _ _ _ _ (exact_empty _ _ _)) (by decide)
-    (List.Perm.refl _) twoState_wf twoState_small).2.1
-
-/-- the saved file of that cache: one 24-byte body, 48 bytes in all -/
-example : (save toyH twoState twoState.cache).1.store.file.length = 48 := by decide
-
-/-- `HashCoincidence` is not an empty escape clause: with a hash that ignores its input every damaged chunk passes -/
-example : HashCoincidence (fun _ => zeroHash) 7 [[1]] :=
-  ⟨0, by decide, le 4 7 ++ le 4 1 ++ [2] ++ zeroHash, by decide, by decide⟩
-
-
-end SH.C21
+end SH.C21.Headline
